@@ -65,7 +65,7 @@ Record LInv (s : state) : Prop := mkLInv {
          fresh s /\ secured s = false /\ sendq s = [] /\ oh s <> OpenTls /\ oh s <> OpenSasl /\ oh s <> OpenCompress;
   li_XF : hasF s ->
           (forall k, In k (hk s) -> is_baseh k = true \/ k = HFeatures) /\ prepost s /\
-          (oh s = OpenAuth \/ oh s = OpenTls) /\ (hasTMF s -> oh s = OpenAuth) /\ (oh s = OpenAuth -> sasl s = []);
+          (oh s = OpenAuth \/ oh s = OpenTls) /\ (hasTMF s -> oh s = OpenAuth) /\ (hasTMF s -> sasl s = []);
   li_XT : hasT s ->
           (forall k, In k (hk s) -> is_baseh k = true \/ k = HProceedTls) /\ prepost s /\ ~ hasTMF s /\
           secured s = false /\ oh s = OpenAuth /\ g_feat_seen (gh s) = true /\
@@ -146,6 +146,7 @@ Qed.
 
 Section Transfer.
 Variables s s' : state.
+Variable JL : Prop.
 Hypothesis Edis : f_tls_disabled s' = f_tls_disabled s.
 Hypothesis Emand : f_tls_mandatory s' = f_tls_mandatory s.
 Hypothesis Elauth : f_legacy_auth s' = f_legacy_auth s.
@@ -165,7 +166,9 @@ Hypothesis Hh : forall k, In k (hk s') -> In k (hk s) \/ (is_posth k = true /\ e
 Hypothesis Hi : forall i, In i (ik s') -> In i (ik s) \/ i = IKLegacy \/ evP s.
 Hypothesis Ht : hasTMF s' -> hasTMF s.
 Hypothesis Hs : sm_enabled s' = sm_enabled s \/ evP s.
-Hypothesis Hq : exists l, sendq s' = sendq s ++ l /\ Forall (fun x => benignE x \/ In (fst (fst x)) (sw s)) l.
+Hypothesis HJL : JL -> f_legacy_auth s = true /\ typ s = TClient /\ (f_tls_mandatory s = true -> is_secured s = true).
+Hypothesis Hq : exists l, sendq s' = sendq s ++ l /\
+  Forall (fun x => benignE x \/ In (fst (fst x)) (sw s) \/ (x = (WLegacy, false, true) /\ JL)) l.
 Hypothesis Hoff : st s <> Connected -> sendq s' = sendq s.
 Hypothesis H6 : hasTMF s' -> hasF s -> hasF s'.
 Hypothesis L : LInv s.
@@ -189,10 +192,10 @@ Proof.
   - destruct Hs; tauto.
 Qed.
 
-Lemma tr_new_entry x : In x (sendq s') -> In x (sendq s) \/ is_neg (fst (fst x)) = false.
+Lemma tr_new_entry x : In x (sendq s') -> In x (sendq s) \/ is_neg (fst (fst x)) = false \/ (x = (WLegacy, false, true) /\ JL).
 Proof.
   destruct Hq as [l [E A]]. rewrite E, in_app_iff. intros [H|H]; [left; exact H|right].
-  rewrite Forall_forall in A. destruct (A x H) as [B|B]; [exact B|apply (gi_S s G); exact B].
+  rewrite Forall_forall in A. destruct (A x H) as [B|[B|B]]; [left; exact B|left; apply (gi_S s G); exact B|right; exact B].
 Qed.
 
 Lemma tr_hasS : hasS s' -> hasS s.
@@ -262,15 +265,18 @@ Proof.
   - (* STUB *) intro A. rewrite Eoh in A. rewrite Eraw. apply (li_STUB s L A).
   - (* COMP *) intro A. rewrite Eoh in A. destruct (li_COMP s L A) as [B [C D]].
     destruct (tr_early (fun k => is_baseh k = true) B ltac:(np) C) as [X1 [X2 X3]]. repeat split; auto.
-  - (* Q *) intros x A B. destruct (tr_new_entry x A) as [X|X]; [apply (li_Q s L x X B)|exact X].
-  - (* M *) intros A B. rewrite Emand in A. unfold is_secured. rewrite Esec, Etlsf, Etlsp. apply (li_M s L A).
-    destruct B as [B|[x [B1 B2]]]; [left; apply tr_hasS; exact B|].
-    destruct (tr_new_entry x B1) as [X|X]; [right; exists x; auto|]. apply is_cred_neg in B2. congruence.
-  - (* D *) intros A x B. rewrite Edis in A. destruct (tr_new_entry x B) as [X|X]; [apply (li_D s L A x X)|].
+  - (* Q *) intros x A B. destruct (tr_new_entry x A) as [X|[X|[X _]]]; [apply (li_Q s L x X B)|exact X|subst x; discriminate B].
+  - (* M *) intros A B. rewrite Emand in A. unfold is_secured. rewrite Esec, Etlsf, Etlsp.
+    destruct B as [B|[x [B1 B2]]]; [apply (li_M s L A); left; apply tr_hasS; exact B|].
+    destruct (tr_new_entry x B1) as [X|[X|[_ X]]]; [apply (li_M s L A); right; exists x; auto| |].
+    + apply is_cred_neg in B2. congruence.
+    + destruct (HJL X) as [_ [_ Y]]. exact (Y A).
+  - (* D *) intros A x B. rewrite Edis in A. destruct (tr_new_entry x B) as [X|[X|[X _]]]; [apply (li_D s L A x X)| |subst x; discriminate].
     intro E. rewrite E in X. discriminate.
-  - (* L *) intros x A B. rewrite Elauth, Etyp. destruct (tr_new_entry x A) as [X|X]; [apply (li_L s L x X B)|].
-    rewrite B in X. discriminate.
-  - (* PL *) intros x A B. rewrite Egs, Egf, Eps. destruct (tr_new_entry x A) as [X|X]; [apply (li_PL s L x X B)|].
+  - (* L *) intros x A B. rewrite Elauth, Etyp. destruct (tr_new_entry x A) as [X|[X|[_ X]]]; [apply (li_L s L x X B)| |].
+    + rewrite B in X. discriminate.
+    + destruct (HJL X) as [Y1 [Y2 _]]. auto.
+  - (* PL *) intros x A B. rewrite Egs, Egf, Eps. destruct (tr_new_entry x A) as [X|[X|[X _]]]; [apply (li_PL s L x X B)| |subst x; discriminate B].
     rewrite B in X. discriminate.
 Qed.
 End Transfer.
@@ -279,6 +285,37 @@ Definition cK : list fld := [Fsme; Fh; Fid; Ft; Fsq; Fsmq; Fcr; FhD; FidD; Fdisc
 
 (* the generic preservation lemma: a function that only adds benign queue entries, removes handlers or
    timers, and adds post-authentication handlers only when the state is already past authentication *)
+Lemma hinv_mono_gen (JL : Prop) c p s s' :
+  (JL -> f_legacy_auth s = true /\ typ s = TClient /\ (f_tls_mandatory s = true -> is_secured s = true)) ->
+  HInv s -> eff c p s s' -> subl c cK = true ->
+  (forall x, pw p x -> benignE x \/ (x = (WLegacy, false, true) /\ JL)) ->
+  (forall k, pt p k -> k <> TMissingFeatures) ->
+  (forall k, ph p k -> is_posth k = true /\ evP s) ->
+  (forall i, pid p i -> i = IKLegacy \/ evP s) ->
+  (fmem Fsme c = true -> evP s) ->
+  (hasTMF s' -> hasF s -> hasF s') ->
+  HInv s'.
+Proof.
+  intros HJL [G Lv] E Sub Pw Pt Ph Pi Ps H6.
+  pose proof (subl_ok _ _ Sub) as W.
+  destruct E as [U Lf St Sme [l [Q A]] Hh Hi Ht M HK IK C O].
+  split.
+  - constructor.
+    + assert (X : fmem Ftlss (c ++ DISC) = false) by (rewrite fmem_app, (W Ftlss eq_refl); reflexivity).
+      pose proof (U Ftlss X) as Y. cbn in Y. rewrite Y. apply (gi_T s G).
+    + intros w Hw. apply (gi_S s G). apply M. exact Hw.
+  - intro L'. destruct (live_back _ _ St L') as [L0 Est]. specialize (Lv L0). specialize (Lf L').
+    assert (F : frame cK s s') by (eapply frame_weaken; [exact W|exact Lf]).
+    apply (linv_transfer s s' JL (F Fdis eq_refl) (F Fmand eq_refl) (F Flauth eq_refl) (F Ftyp eq_refl) (F Fraw eq_refl)
+             (F Fst eq_refl) (F Fsec eq_refl) (F Ftlsp eq_refl) (F Ftlsf eq_refl) (F Fsasl eq_refl) (F Frp eq_refl)
+             (F Foh eq_refl) (F Fps eq_refl) (F Fgs eq_refl) (F Fgf eq_refl)); try assumption.
+    + intros k Hk. destruct (Hh k Hk) as [X|X]; [left; exact X|right; apply Ph; exact X].
+    + intros i Hi0. destruct (Hi i Hi0) as [X|X]; [left; exact X|right; eapply Pi; exact X].
+    + intro T. destruct (Ht _ T) as [X|X]; [exact X|]. exfalso. apply (Pt _ X). reflexivity.
+    + destruct (fmem Fsme c) eqn:Fs; [right; apply Ps; reflexivity|left]. exact (Lf Fsme Fs).
+    + exists l. split; [exact Q|]. eapply Forall_impl; [|exact A]. intros x [X|X]; [|right; left; exact X].
+      destruct (Pw x X) as [Y|Y]; [left; exact Y|right; right; exact Y].
+Qed.
 Lemma hinv_mono c p s s' :
   HInv s -> eff c p s s' -> subl c cK = true ->
   (forall x, pw p x -> benignE x) ->
@@ -289,24 +326,7 @@ Lemma hinv_mono c p s s' :
   (hasTMF s' -> hasF s -> hasF s') ->
   HInv s'.
 Proof.
-  intros [G Lv] E Sub Pw Pt Ph Pi Ps H6.
-  pose proof (subl_ok _ _ Sub) as W.
-  destruct E as [U Lf St Sme [l [Q A]] Hh Hi Ht M HK IK C O].
-  split.
-  - constructor.
-    + assert (X : fmem Ftlss (c ++ DISC) = false) by (rewrite fmem_app, (W Ftlss eq_refl); reflexivity).
-      pose proof (U Ftlss X) as Y. cbn in Y. rewrite Y. apply (gi_T s G).
-    + intros w Hw. apply (gi_S s G). apply M. exact Hw.
-  - intro L'. destruct (live_back _ _ St L') as [L0 Est]. specialize (Lv L0). specialize (Lf L').
-    assert (F : frame cK s s') by (eapply frame_weaken; [exact W|exact Lf]).
-    apply (linv_transfer s s' (F Fdis eq_refl) (F Fmand eq_refl) (F Flauth eq_refl) (F Ftyp eq_refl) (F Fraw eq_refl)
-             (F Fst eq_refl) (F Fsec eq_refl) (F Ftlsp eq_refl) (F Ftlsf eq_refl) (F Fsasl eq_refl) (F Frp eq_refl)
-             (F Foh eq_refl) (F Fps eq_refl) (F Fgs eq_refl) (F Fgf eq_refl)); try assumption.
-    + intros k Hk. destruct (Hh k Hk) as [X|X]; [left; exact X|right; apply Ph; exact X].
-    + intros i Hi0. destruct (Hi i Hi0) as [X|X]; [left; exact X|right; eapply Pi; exact X].
-    + intro T. destruct (Ht _ T) as [X|X]; [exact X|]. exfalso. apply (Pt _ X). reflexivity.
-    + destruct (fmem Fsme c) eqn:Fs; [right; apply Ps; reflexivity|left]. exact (Lf Fsme Fs).
-    + exists l. split; [exact Q|]. eapply Forall_impl; [|exact A]. intros x [X|X]; [left; apply Pw; exact X|right; exact X].
+  intros H E Sub Pw. apply (hinv_mono_gen False c p s s'); try assumption; [intros []|]. intros x X. left. apply Pw. exact X.
 Qed.
 
 Lemma In_hk_handlers k s : In k (hk s) <-> exists b, In (k, b) (handlers s).
@@ -331,18 +351,21 @@ Qed.
    ev: evidence of the post-authentication phase; po: the parser is inside a stream; ld: the code does not
    call conn_disconnect and LocD holds (needed while a chunk is processed); never Connecting while handlers run;
    VD eo: what is known about a strong offer while HFeatures waits (eo = the element being dispatched) *)
-Definition strongE (eo : option elem) (t : state) : Prop :=
-  exists e, eo = Some e /\ is_feat e = true /\ existsb (is_strong (cert_set t)) (e_mechs e) = true.
-Definition VD (eo : option elem) (t : state) : Prop :=
+Definition strongE (eo : option elem * Prop) (t : state) : Prop :=
+  exists e, fst eo = Some e /\ is_feat e = true /\ existsb (is_strong (cert_set t)) (e_mechs e) = true.
+Definition VD (eo : option elem * Prop) (t : state) : Prop :=
   live t -> hasF t ->
-  (forall e, eo = Some e -> is_feat e = true -> g_feat_seen (gh t) = true) /\
+  (forall e, fst eo = Some e -> is_feat e = true -> g_feat_seen (gh t) = true) /\
   (crashed t = false -> g_strong (gh t) = true -> strong_in t \/ strongE eo t).
 Definition LocD (t : state) : Prop :=
   st t = Disconnected ->
   sm_enabled t = false /\ (forall k, In k (hk t) -> is_baseh k = true) /\ (forall i, In i (ik t) -> i = IKLegacy).
-Definition Ctx (ev po ld : bool) (eo : option elem) (t : state) : Prop :=
-  (ev = true -> evP t) /\ (po = true -> ps t = POpen) /\ st t <> Connecting /\ VD eo t /\ (ld = true -> LocD t).
-Definition JT (ev po ld : bool) (eo : option elem) (t : state) : Prop := HInv t /\ Ctx ev po ld eo t.
+(* while a stanza is dispatched, a registered HFeatures is enabled (it was there when the dispatch began) *)
+Definition ENF (t : state) : Prop := hasF t -> In (HFeatures, true) (handlers t).
+Definition Ctx (ev po ld : bool) (eo : option elem * Prop) (t : state) : Prop :=
+  (ev = true -> evP t) /\ (po = true -> ps t = POpen) /\ st t <> Connecting /\ VD eo t /\ (ld = true -> LocD t /\ ENF t) /\
+  (hasF t -> snd eo).
+Definition JT (ev po ld : bool) (eo : option elem * Prop) (t : state) : Prop := HInv t /\ Ctx ev po ld eo t.
 
 Lemma base_not_evP t : (forall k, In k (hk t) -> is_baseh k = true) -> (forall i, In i (ik t) -> i = IKLegacy) -> ~ evP t.
 Proof.
@@ -358,8 +381,8 @@ Lemma ctx_step ev po ld eo c p t t' :
   (fmem Fsme c = true -> ev = true) -> (ld = true -> fmem Fdisc c = false) ->
   Ctx ev po ld eo t -> Ctx ev po ld eo t'.
 Proof.
-  intros E Sub F1 F2 Ph Pi Ps Pl [A [B [C [D LD]]]]. pose proof (subl_ok _ _ Sub) as W.
-  split; [|split; [|split; [|split]]].
+  intros E Sub F1 F2 Ph Pi Ps Pl [A [B [C [D [LD HF]]]]]. pose proof (subl_ok _ _ Sub) as W.
+  split; [|split; [|split; [|split; [|split]]]].
   - intro X. eapply keep_evP; eauto.
   - intro X. assert (Y : fmem Fps (c ++ DISC) = false) by (rewrite fmem_app, (W Fps eq_refl); reflexivity).
     pose proof (ef_U _ _ _ _ E Fps Y) as Z. cbn in Z. rewrite Z. auto.
@@ -375,13 +398,17 @@ Proof.
     + intros X Y. rewrite Egs in Y.
       assert (Z : crashed t = false) by (destruct (crashed t) eqn:Q; [rewrite (ef_cr _ _ _ _ E Q) in X; discriminate|reflexivity]).
       unfold strong_in, strongE. rewrite Esasl, Ecert. exact (D2 Z Y).
-  - intros X S'. specialize (Pl X). pose proof (ef_nd _ _ _ _ E Pl) as Est. rewrite Est in S'.
-    destruct (LD X S') as [L1 [L2 L3]]. pose proof (base_not_evP t L2 L3) as NE.
-    assert (NEv : ev = true -> False) by (intro Y; apply NE; auto).
-    split; [|split].
-    + destruct (fmem Fsme c) eqn:Q; [exfalso; auto|]. destruct (ef_sme _ _ _ _ E Q) as [Y|Y]; congruence.
-    + intros k K. destruct (ef_h _ _ _ _ E _ K) as [Y|Y]; [auto|]. destruct (Ph _ Y) as [_ Z]. exfalso; auto.
-    + intros i K. destruct (ef_i _ _ _ _ E _ K) as [Y|Y]; [auto|]. destruct (Pi _ Y) as [Z|Z]; [exact Z|exfalso; auto].
+  - intros X. destruct (LD X) as [LD1 LD2]. split.
+    + intros S'. specialize (Pl X). pose proof (ef_nd _ _ _ _ E Pl) as Est. rewrite Est in S'.
+      destruct (LD1 S') as [L1 [L2 L3]]. pose proof (base_not_evP t L2 L3) as NE.
+      assert (NEv : ev = true -> False) by (intro Y; apply NE; auto).
+      split; [|split].
+      * destruct (fmem Fsme c) eqn:Q; [exfalso; auto|]. destruct (ef_sme _ _ _ _ E Q) as [Y|Y]; congruence.
+      * intros k K. destruct (ef_h _ _ _ _ E _ K) as [Y|Y]; [auto|]. destruct (Ph _ Y) as [_ Z]. exfalso; auto.
+      * intros i K. destruct (ef_i _ _ _ _ E _ K) as [Y|Y]; [auto|]. destruct (Pi _ Y) as [Z|Z]; [exact Z|exfalso; auto].
+    + intro F'. apply (ef_hkeep _ _ _ _ E F1). apply LD2.
+      destruct (ef_h _ _ _ _ E _ F') as [Y|Y]; [exact Y|]. destruct (Ph _ Y) as [Z _]. discriminate.
+  - intro F'. apply HF. destruct (ef_h _ _ _ _ E _ F') as [X|X]; [exact X|]. destruct (Ph _ X) as [Y _]. discriminate.
 Qed.
 
 Lemma jt_step ev po ld eo c p t t' :
@@ -418,7 +445,7 @@ Qed.
 Lemma linv_set_oh h b t :
   LInv t ->
   (st t = Connecting -> h <> OpenTls /\ h <> OpenSasl /\ h <> OpenCompress) ->
-  (hasF t -> (h = OpenAuth \/ h = OpenTls) /\ (hasTMF t -> h = OpenAuth) /\ (h = OpenAuth -> sasl t = [])) ->
+  (hasF t -> (h = OpenAuth \/ h = OpenTls) /\ (hasTMF t -> h = OpenAuth)) ->
   (hasT t -> h = OpenAuth) ->
   (hasS t -> h = OpenAuth \/ h = OpenTls) ->
   (st t = Connected -> h = OpenAuth -> ps t = PDepth0 -> fresh t) ->
@@ -435,7 +462,7 @@ Lemma linv_set_oh h b t :
 Proof.
   intros L OC OXF OXT OXS OPOA OPOT OPOP OO OR ORP ORAW OSTUB OCOMP. constructor.
   - intro A. destruct (li_C t L A) as [F [X [Y _]]]. split; [exact F|split; [exact X|split; [exact Y|exact (OC A)]]].
-  - intro A. destruct (li_XF t L A) as [X [Y _]]. split; [exact X|split; [exact Y|exact (OXF A)]].
+  - intro A. destruct (li_XF t L A) as [X [Y [_ [_ Z]]]]. destruct (OXF A) as [O1 O2]. split; [exact X|split; [exact Y|split; [exact O1|split; [exact O2|exact Z]]]].
   - intro A. destruct (li_XT t L A) as [X [Y [Z [V [_ W]]]]]. split; [exact X|split; [exact Y|split; [exact Z|split; [exact V|split; [exact (OXT A)|exact W]]]]].
   - intros k A B. destruct (li_XS t L k A B) as [X [Y [Z [_ W]]]].
     split; [exact X|split; [exact Y|split; [exact Z|split; [|exact W]]]]. apply OXS. exists k. auto.
@@ -478,7 +505,8 @@ Ltac jstep L :=
   eapply jt_step; [ | apply L | vm_compute; reflexivity | reflexivity | reflexivity | pw_tac | pt_tac | ph_tac | pi_tac | ps_tac | ld_tac ].
 Ltac jsetter t :=
   first [ eapply (jt_step _ _ _ _ [] pnone t); [ | (let tt := fresh "tt" in set (tt := t); clearbody tt; eff_frame) | vm_compute; reflexivity | reflexivity | reflexivity | pw_tac | pt_tac | ph_tac | pi_tac | ps_tac | ld_tac ]
-        | eapply (jt_step _ _ _ _ [Fsme] pnone t); [ | (let tt := fresh "tt" in set (tt := t); clearbody tt; eff_frame) | vm_compute; reflexivity | reflexivity | reflexivity | pw_tac | pt_tac | ph_tac | pi_tac | ps_tac | ld_tac ] ].
+        | eapply (jt_step _ _ _ _ [Fsme] pnone t); [ | (let tt := fresh "tt" in set (tt := t); clearbody tt; eff_frame) | vm_compute; reflexivity | reflexivity | reflexivity | pw_tac | pt_tac | ph_tac | pi_tac | ps_tac | ld_tac ]
+        | eapply (jt_step _ _ _ _ [Fcr] pnone t); [ | (let tt := fresh "tt" in set (tt := t); clearbody tt; eff_frame) | vm_compute; reflexivity | reflexivity | reflexivity | pw_tac | pt_tac | ph_tac | pi_tac | ps_tac | ld_tac ] ].
 
 Ltac peel_extra := fail.
 Ltac peelJ :=
@@ -509,8 +537,8 @@ Ltac peelJ :=
   end.
 
 (* results *)
-Definition JR (ev po ld : bool) (eo : option elem) (r : R) : Prop := JT ev po ld eo (fst r).
-Definition J3 (ev po ld : bool) (eo : option elem) (r : state * emit * bool) : Prop := JT ev po ld eo (fst (fst r)).
+Definition JR (ev po ld : bool) (eo : option elem * Prop) (r : R) : Prop := JT ev po ld eo (fst r).
+Definition J3 (ev po ld : bool) (eo : option elem * Prop) (r : state * emit * bool) : Prop := JT ev po ld eo (fst (fst r)).
 Lemma J3_let_st ev po ld eo v (B : state -> state * emit * bool) :
   JT ev po ld eo v -> (forall x, JT ev po ld eo x -> J3 ev po ld eo (B x)) -> J3 ev po ld eo (let x := v in B x).
 Proof. intros A F. apply F. exact A. Qed.
@@ -597,7 +625,7 @@ Lemma call_id_J k now e eo s :
 Proof. intros H. destruct k; cbv beta iota delta [call_id_handler]; repeat symJR. Qed.
 Lemma sm_handle_J e ev eo s : JT ev true true eo s -> JT ev true true eo (sm_handle e s).
 Proof. intro H. unfold sm_handle. repeat peelJ. Qed.
-Lemma call_timed_J k now s : k <> TMissingFeatures -> JT false false false None s -> J3 false false false None (call_timed k now s).
+Lemma call_timed_J k now eo s : k <> TMissingFeatures -> JT false false false eo s -> J3 false false false eo (call_timed k now s).
 Proof.
   intros K H. destruct k; try congruence; cbv beta iota delta [call_timed]; repeat symJ3.
 Qed.
@@ -623,7 +651,7 @@ Hypothesis Hpp : prepost s'.
 Hypothesis Htm : ~ hasTMF s'.
 Hypothesis OXF : hasF s' ->
   (forall k, In k (hk s') -> is_baseh k = true \/ k = HFeatures) /\ prepost s' /\
-  (oh s' = OpenAuth \/ oh s' = OpenTls) /\ (hasTMF s' -> oh s' = OpenAuth) /\ (oh s' = OpenAuth -> sasl s' = []).
+  (oh s' = OpenAuth \/ oh s' = OpenTls) /\ (hasTMF s' -> oh s' = OpenAuth) /\ (hasTMF s' -> sasl s' = []).
 Hypothesis OXT : hasT s' ->
   (forall k, In k (hk s') -> is_baseh k = true \/ k = HProceedTls) /\ prepost s' /\ ~ hasTMF s' /\
   secured s' = false /\ oh s' = OpenAuth /\ g_feat_seen (gh s') = true /\
@@ -755,8 +783,20 @@ Record APre (k : hkind) (s : state) : Prop := mkAPre {
 Lemma apre_authh k s : APre k s -> is_authh k.
 Proof. intros A. destruct (ap_k k s A) as [X|X]; [left; exact X|right; right; exact X]. Qed.
 
+Record APre0 (k : hkind) (s : state) : Prop := mkAPre0 {
+  a0_in : In k (hk s);
+  a0_k : is_authh k;
+  a0_hk : forall k', In k' (hk s) -> is_baseh k' = true \/ k' = k;
+  a0_pp : prepost s;
+  a0_tm : ~ hasTMF s;
+  a0_ps : ps s = POpen;
+  a0_st : st s <> Connecting
+}.
+Lemma apre0 k s : APre k s -> APre0 k s.
+Proof. intro A. constructor; try apply A. apply (apre_authh k s A). Qed.
+
 (* what the visit leaves behind: the invariant, and the local context for the rest of the dispatch *)
-Definition VPost (eo : option elem) (t : state) : Prop := HInv t /\ Ctx false true true eo t.
+Definition VPost (eo : option elem * Prop) (t : state) : Prop := HInv t /\ Ctx false true true eo t.
 
 Lemma In_app_sendq s t l x : sendq t = sendq s ++ l -> In x (sendq t) -> In x (sendq s) \/ In x l.
 Proof. intros E H. rewrite E in H. apply in_app_iff in H. exact H. Qed.
@@ -764,6 +804,74 @@ Proof. intros E H. rewrite E in H. apply in_app_iff in H. exact H. Qed.
 Lemma is_secured_frame s t : secured t = secured s -> tls_failed t = tls_failed s -> tls_present t = tls_present s ->
   is_secured t = is_secured s.
 Proof. unfold is_secured. intros -> -> ->. reflexivity. Qed.
+
+(* a credential is queued and the SASL handler kh is (or stays) the one registered *)
+Lemma auth_move eo k s t c p w kh :
+  GInv s -> live s -> LInv s -> APre k s ->
+  eff c p s t -> subl c [Fsasl; Fsq; Fh; FhD] = true ->
+  (forall x, pw p x -> x = (w, false, negb (sm_enabled s)) \/ x = (WReq, false, true)) ->
+  (forall i, ~ pid p i) -> (forall k0, ~ pt p k0) ->
+  (forall k', In k' (hk t) -> is_baseh k' = true \/ k' = kh) -> is_saslh kh = true ->
+  (forall a, mem_mech a (sasl s) = false -> mem_mech a (sasl t) = false) ->
+  (w = WAuth MPlain -> g_strong (gh s) = false) ->
+  (f_tls_mandatory s = true -> is_secured s = true) ->
+  w <> WStartTls -> w <> WLegacy ->
+  VPost eo t.
+Proof.
+  intros G Lv L A E Sub Pw Pi Pt HK Kh Hsasl Hpl SEC Wn1 Wn2.
+  pose proof (subl_ok _ _ Sub) as W.
+  assert (Est : st t = st s) by (apply (ef_nd _ _ _ _ E); apply W; reflexivity).
+  assert (Lt : live t) by (unfold live; rewrite Est; exact Lv).
+  assert (F : frame [Fsasl; Fsq; Fh; FhD] s t) by (eapply frame_weaken; [exact W|exact (ef_L _ _ _ _ E Lt)]).
+  destruct (ap_pp k s A) as [PP1 PP2].
+  assert (NF : ~ hasF t).
+  { intro X. destruct (HK _ X) as [Y|Y]; [discriminate|]. subst kh. discriminate. }
+  assert (NT : ~ hasT t).
+  { intro X. destruct (HK _ X) as [Y|Y]; [discriminate|]. subst kh. discriminate. }
+  assert (PPt : prepost t).
+  { split; [|rewrite (F Fsme eq_refl); exact PP2]. intros i H.
+    destruct (ef_i _ _ _ _ E _ H) as [X|X]; [auto|destruct (Pi _ X)]. }
+  assert (TMt : ~ hasTMF t).
+  { intro X. destruct (ef_t _ _ _ _ E _ X) as [Y|Y]; [apply (ap_tm k s A Y)|destruct (Pt _ Y)]. }
+  destruct (ef_sq _ _ _ _ E) as [l [Q Al]]. rewrite Forall_forall in Al.
+  assert (NEW : forall x, In x l -> x = (w, false, true) \/ is_neg (fst (fst x)) = false).
+  { intros x H. destruct (Al x H) as [X|X]; [|right; apply (gi_S s G _ X)].
+    destruct (Pw x X) as [Y|Y]; [left; rewrite Y, PP2; reflexivity|right; rewrite Y; reflexivity]. }
+  assert (Esec : is_secured t = is_secured s) by (apply is_secured_frame; [exact (F Fsec eq_refl)|exact (F Ftlsf eq_refl)|exact (F Ftlsp eq_refl)]).
+  split.
+  - split.
+    + constructor.
+      * assert (X : fmem Ftlss (c ++ DISC) = false) by (rewrite fmem_app, W; reflexivity).
+        pose proof (ef_U _ _ _ _ E Ftlss X) as Y. unfold eq_on in Y. rewrite Y. apply (gi_T s G).
+      * intros w0 H. apply (gi_S s G). apply (ef_smq _ _ _ _ E). exact H.
+    + intros _.
+      apply (linv_transfer2 s t k (ap_in k s A) (apre_authh k s A) L (F Fraw eq_refl)
+               Est (F Frp eq_refl) (F Foh eq_refl) (F Fps eq_refl)); try assumption.
+      * intros k' H. destruct (HK k' H) as [X|X]; [left; exact X|right; right; right; subst; exact Kh].
+      * intro X. contradiction.
+      * intro X. contradiction.
+      * intros k2 K2 S2. destruct (HK k2 K2) as [X|X]; [destruct k2; discriminate|]. subst k2.
+        split; [exact HK|]. split; [exact PPt|]. split; [exact TMt|].
+        rewrite (F Foh eq_refl), (F Fgf eq_refl), (F Fgs eq_refl).
+        split; [exact (ap_oh k s A)|]. split; [exact (ap_gf k s A)|].
+        intro X. apply Hsasl. apply (ap_pl k s A X).
+      * intros x H B. destruct (In_app_sendq s t l x Q H) as [X|X]; [apply (li_Q s L x X B)|].
+        destruct (NEW x X) as [Y|Y]; [subst x; discriminate B|exact Y].
+      * intros M _. rewrite (F Fmand eq_refl) in M. rewrite Esec. auto.
+      * intros D x H. rewrite (F Fdis eq_refl) in D. destruct (In_app_sendq s t l x Q H) as [X|X]; [apply (li_D s L D x X)|].
+        destruct (NEW x X) as [Y|Y]; [subst x; exact Wn1|]. intro Z. rewrite Z in Y. discriminate.
+      * intros x H B. destruct (In_app_sendq s t l x Q H) as [X|X].
+        { rewrite (F Flauth eq_refl), (F Ftyp eq_refl). apply (li_L s L x X B). }
+        destruct (NEW x X) as [Y|Y]; [subst x; cbn in B; contradiction|]. rewrite B in Y. discriminate.
+      * intros x H B. rewrite (F Fgs eq_refl), (F Fgf eq_refl), (F Fps eq_refl).
+        destruct (In_app_sendq s t l x Q H) as [X|X]; [apply (li_PL s L x X B)|].
+        destruct (NEW x X) as [Y|Y]; [|rewrite B in Y; discriminate]. subst x. cbn in B.
+        split; [exact (Hpl B)|split; [exact (ap_gf k s A)|rewrite (ap_ps k s A); discriminate]].
+      * intro X. rewrite (F Foh eq_refl) in X. rewrite (F Fsec eq_refl). apply (li_O s L X).
+  - split; [intro X; discriminate X|]. split; [intros _; rewrite (F Fps eq_refl); exact (ap_ps k s A)|].
+    split; [rewrite Est; exact (ap_st k s A)|]. split; [intros _ X; contradiction|].
+    split; [intros _; split; [intro X; rewrite Est in X; contradiction|intro X; contradiction]|intro X; contradiction].
+Qed.
 
 Lemma visit_mech eo k s m kh s' :
   GInv s -> live s -> LInv s -> APre k s ->
@@ -784,65 +892,1363 @@ Proof.
   assert (E : eff [Fsasl; Fsq; Fh; FhD] (mkP (fun x => x = (WAuth m, false, negb (sm_enabled s)) \/ x = (WReq, false, true))
                  (fun k0 => k0 = kh) (fun _ => False) (fun _ => False)) s (h_del k s')).
   { eapply eff_seq; [exact E2|apply (h_del_eff pnone)|solve_sub|apply pimp_refl|apply pimp_none]. }
-  assert (Esaslt : sasl (h_del k s') = del_mech m (sasl s)) by exact Esasl.
-  set (t := h_del k s') in *.
-  assert (Est : st t = st s) by (apply (ef_nd _ _ _ _ E); reflexivity).
-  assert (Lt : live t) by (unfold live; rewrite Est; exact Lv).
-  pose proof (ef_L _ _ _ _ E Lt) as F.
-  destruct (ap_pp k s A) as [PP1 PP2].
-  assert (HK : forall k', In k' (hk t) -> (is_baseh k' = true \/ k' = kh) /\ k' <> k).
-  { intros k' H. unfold t in H. apply In_hk_h_del in H as [H N]. split; [|exact N].
+  eapply (auth_move eo k s (h_del k s') _ _ (WAuth m) kh); try eassumption; try reflexivity; cbn; try tauto; try discriminate.
+  - intros k' H. apply In_hk_h_del in H as [H N].
     destruct (ef_h _ _ _ _ E2 _ H) as [X|X]; [|right; exact X].
-    destruct (ap_hk k s A k' X) as [Y|Y]; [left; exact Y|contradiction]. }
-  assert (NF : ~ hasF t).
-  { intro X. destruct (HK _ X) as [[Y|Y] N]; [discriminate|]. subst kh. discriminate. }
-  assert (NT : ~ hasT t).
-  { intro X. destruct (HK _ X) as [[Y|Y] N]; [discriminate|]. subst kh. discriminate. }
-  assert (PPt : prepost t).
-  { split; [|rewrite (F Fsme eq_refl); exact PP2]. intros i H.
-    destruct (ef_i _ _ _ _ E _ H) as [X|X]; [auto|destruct X]. }
-  assert (TMt : ~ hasTMF t).
-  { intro X. destruct (ef_t _ _ _ _ E _ X) as [Y|Y]; [apply (ap_tm k s A Y)|destruct Y]. }
-  destruct (ef_sq _ _ _ _ E) as [l [Q Al]]. rewrite Forall_forall in Al.
-  assert (NEW : forall x, In x l -> x = (WAuth m, false, true) \/ is_neg (fst (fst x)) = false).
-  { intros x H. destruct (Al x H) as [[X|X]|X].
-    - left. rewrite X, PP2. reflexivity.
-    - right. rewrite X. reflexivity.
-    - right. apply (gi_S s G _ X). }
-  assert (SEC : f_tls_mandatory s = true -> is_secured s = true).
-  { intro X. rewrite X in Em. destruct (is_secured s); [reflexivity|discriminate]. }
-  assert (Esec : is_secured t = is_secured s) by (apply is_secured_frame; [exact (F Fsec eq_refl)|exact (F Ftlsf eq_refl)|exact (F Ftlsp eq_refl)]).
+    destruct (ap_hk k s A k' X) as [Y|Y]; [left; exact Y|contradiction].
+  - intros a X. change (sasl (h_del k s')) with (sasl s'). rewrite Esasl. apply mem_del_false. exact X.
+  - intro X. inv X. destruct (g_strong (gh s)) eqn:Gs; [|reflexivity]. rewrite (ap_pl k s A Gs) in Hm. discriminate.
+  - intro X. rewrite X in Em. destruct (is_secured s); [reflexivity|discriminate].
+Qed.
+
+(* the branches of _auth that register no new SASL handler: legacy authentication, xmpp_disconnect, conn_disconnect *)
+Lemma visit_quiet eo k s s' c p :
+  GInv s -> live s -> LInv s -> APre0 k s ->
+  eff c p s s' -> subl c [Fsq; Fid; Ft; Fcr; Fdisc] = true ->
+  (forall x, pw p x -> x = (WLegacy, false, negb (sm_enabled s)) \/ benignE x) ->
+  (forall k0, ~ ph p k0) -> (forall i, pid p i -> i = IKLegacy) -> (forall k0, pt p k0 -> k0 <> TMissingFeatures) ->
+  ((exists x, pw p x /\ x = (WLegacy, false, negb (sm_enabled s))) ->
+     f_legacy_auth s = true /\ typ s = TClient /\ (f_tls_mandatory s = true -> is_secured s = true)) ->
+  VPost eo (h_del k s').
+Proof.
+  intros G Lv L A E2 Sub Pw Ph Pi Pt Leg.
+  pose proof (subl_ok _ _ Sub) as W.
+  assert (E : eff (c ++ [Fh; FhD]) p s (h_del k s')).
+  { eapply eff_trans; [exact E2|apply h_del_eff]. }
+  set (t := h_del k s') in *.
+  destruct (a0_pp k s A) as [PP1 PP2].
+  assert (HK : forall k', In k' (hk t) -> is_baseh k' = true).
+  { intros k' H. unfold t in H. apply In_hk_h_del in H as [H N].
+    destruct (ef_h _ _ _ _ E2 _ H) as [X|X]; [|destruct (Ph _ X)].
+    destruct (a0_hk k s A k' X) as [Y|Y]; [exact Y|contradiction]. }
+  assert (IKt : forall i, In i (ik t) -> i = IKLegacy).
+  { intros i H. destruct (ef_i _ _ _ _ E _ H) as [X|X]; auto. }
+  assert (Wc : forall f, fmem f [Fsq; Fid; Ft; Fcr; Fdisc; Fh; FhD] = false -> fmem f (c ++ [Fh; FhD]) = false).
+  { intros f X. rewrite fmem_app. destruct f; cbn in X; try discriminate X; rewrite W by reflexivity; reflexivity. }
   split.
   - split.
     + constructor.
-      * pose proof (ef_U _ _ _ _ E Ftlss eq_refl) as X. unfold eq_on in X. rewrite X. apply (gi_T s G).
+      * assert (X : fmem Ftlss ((c ++ [Fh; FhD]) ++ DISC) = false) by (rewrite fmem_app, (Wc Ftlss eq_refl); reflexivity).
+        pose proof (ef_U _ _ _ _ E Ftlss X) as Y. unfold eq_on in Y. rewrite Y. apply (gi_T s G).
       * intros w H. apply (gi_S s G). apply (ef_smq _ _ _ _ E). exact H.
-    + intros _.
-      apply (linv_transfer2 s t k (ap_in k s A) (apre_authh k s A) L (F Fraw eq_refl)
+    + intros Lt. pose proof (ef_L _ _ _ _ E Lt) as F0.
+      assert (F : frame [Fsq; Fid; Ft; Fcr; Fdisc; Fh; FhD] s t) by (eapply frame_weaken; [exact Wc|exact F0]).
+      destruct (live_back _ _ (ef_st _ _ _ _ E) Lt) as [_ Est].
+      assert (PPt : prepost t) by (split; [exact IKt|rewrite (F Fsme eq_refl); exact PP2]).
+      assert (TMt : ~ hasTMF t).
+      { intro X. destruct (ef_t _ _ _ _ E _ X) as [Y|Y]; [apply (a0_tm k s A Y)|]. apply (Pt _ Y). reflexivity. }
+      destruct (ef_sq _ _ _ _ E) as [l [Q Al]]. rewrite Forall_forall in Al.
+      assert (NEW : forall x, In x l -> (x = (WLegacy, false, true) /\ f_legacy_auth s = true /\ typ s = TClient /\
+                                          (f_tls_mandatory s = true -> is_secured s = true)) \/ is_neg (fst (fst x)) = false).
+      { intros x H. destruct (Al x H) as [X|X]; [|right; apply (gi_S s G _ X)].
+        destruct (Pw x X) as [Y|Y]; [|right; exact Y]. left. split; [rewrite Y, PP2; reflexivity|].
+        apply Leg. exists x. auto. }
+      assert (Esec : is_secured t = is_secured s) by (apply is_secured_frame; [exact (F Fsec eq_refl)|exact (F Ftlsf eq_refl)|exact (F Ftlsp eq_refl)]).
+      assert (NB : forall k', In k' (hk t) -> is_authh k' -> False).
+      { intros k' H X. specialize (HK k' H). destruct (authh_not_base k' X) as [Y _]. congruence. }
+      apply (linv_transfer2 s t k (a0_in k s A) (a0_k k s A) L (F Fraw eq_refl)
                Est (F Frp eq_refl) (F Foh eq_refl) (F Fps eq_refl)); try assumption.
-      * intros k' H. destruct (HK k' H) as [[X|X] _]; [left; exact X|right; right; right; subst; exact Kh].
+      * intros k' H. left. auto.
+      * intro X. exfalso. apply (NB _ X). left. reflexivity.
+      * intro X. exfalso. apply (NB _ X). right. left. reflexivity.
+      * intros k2 K2 S2. exfalso. apply (NB _ K2). right. right. exact S2.
+      * intros x H B. destruct (In_app_sendq s t l x Q H) as [X|X]; [apply (li_Q s L x X B)|].
+        destruct (NEW x X) as [[Y _]|Y]; [subst x; discriminate B|exact Y].
+      * intros M [[k2 [K2 S2]]|[x [H B]]].
+        { exfalso. apply (NB _ K2). right. right. exact S2. }
+        rewrite (F Fmand eq_refl) in M. rewrite Esec.
+        destruct (In_app_sendq s t l x Q H) as [X|X]; [apply (li_M s L M); right; exists x; auto|].
+        destruct (NEW x X) as [[_ [_ [_ Y]]]|Y]; [auto|]. apply is_cred_neg in B. congruence.
+      * intros D x H. rewrite (F Fdis eq_refl) in D. destruct (In_app_sendq s t l x Q H) as [X|X]; [apply (li_D s L D x X)|].
+        destruct (NEW x X) as [[Y _]|Y]; [subst x; discriminate|]. intro Z. rewrite Z in Y. discriminate.
+      * intros x H B. rewrite (F Flauth eq_refl), (F Ftyp eq_refl). destruct (In_app_sendq s t l x Q H) as [X|X].
+        { apply (li_L s L x X B). }
+        destruct (NEW x X) as [[_ [Y1 [Y2 _]]]|Y]; [auto|]. rewrite B in Y. discriminate.
+      * intros x H B. rewrite (F Fgs eq_refl), (F Fgf eq_refl), (F Fps eq_refl).
+        destruct (In_app_sendq s t l x Q H) as [X|X]; [apply (li_PL s L x X B)|].
+        destruct (NEW x X) as [[Y _]|Y]; [subst x; discriminate B|rewrite B in Y; discriminate].
+      * intro X. rewrite (F Foh eq_refl) in X. rewrite (F Fsec eq_refl). apply (li_O s L X).
+  - split; [intro X; discriminate X|].
+    assert (Eps : ps t = ps s).
+    { assert (X : fmem Fps ((c ++ [Fh; FhD]) ++ DISC) = false) by (rewrite fmem_app, (Wc Fps eq_refl); reflexivity).
+      exact (ef_U _ _ _ _ E Fps X). }
+    split; [intros _; rewrite Eps; exact (a0_ps k s A)|].
+    split; [destruct (ef_st _ _ _ _ E) as [X|X]; rewrite X; [exact (a0_st k s A)|discriminate]|].
+    split; [|split].
+    + intros _ X. specialize (HK _ X). discriminate.
+    + intros _. split; [|intro X; specialize (HK _ X); discriminate].
+      intros X. split; [|split; [exact HK|exact IKt]].
+      destruct (ef_sme _ _ _ _ E (Wc Fsme eq_refl)) as [Y|Y]; congruence.
+    + intro X. specialize (HK _ X). discriminate.
+Qed.
+
+Lemma visit_body eo now k s s' o :
+  GInv s -> live s -> LInv s -> APre k s -> body_res now s s' o -> VPost eo (h_del k s').
+Proof.
+  intros G Lv L A B. pose proof (apre0 k s A) as A0. destruct B as [Em|m kh s2 Em Hm Kh s1 Hs|Em Ty La _|Em].
+  - eapply visit_quiet; try eassumption; [apply (conn_disconnect_eff pnone)|reflexivity|..]; cbn; try tauto.
+    intros [x [[] _]].
+  - eapply visit_mech; eassumption.
+  - eapply visit_quiet; try eassumption; [apply auth_legacy_eff|reflexivity|..]; cbn; try tauto.
+    + intros k0 [X|X]; subst; discriminate.
+    + intros _. split; [exact La|split; [exact Ty|]]. intro M. rewrite M in Em. destruct (is_secured s); [reflexivity|discriminate].
+  - eapply visit_quiet; try eassumption; [apply xmpp_disconnect_eff|reflexivity|..]; cbn; try tauto.
+    + intros x [X|X]; right; unfold benignE; rewrite X; reflexivity.
+    + intros k0 X; subst; discriminate.
+    + intros [x [[X|X] Y]]; subst x; discriminate.
+Qed.
+
+(* ------------------------------------------------------------------ leaving the authentication phase *)
+Lemma h_del_comm k h s :
+  h_del k (conn_open_stream (prepare_reset h s)) = conn_open_stream (prepare_reset h (h_del k s)).
+Proof.
+  unfold conn_open_stream, send_gated, is_connected_owner, prepare_reset, h_del.
+  destruct s. cbn. repeat break_match; try reflexivity.
+  all: unfold q_append; cbn; repeat break_match; try reflexivity; try congruence.
+Qed.
+
+(* the TLS fields change (conn_tls_start) *)
+Lemma linv_tls_up v u :
+  LInv u -> st u <> Connecting -> ~ hasT u ->
+  (f_tls_mandatory u = true -> (hasS u \/ exists x, In x (sendq u) /\ is_cred (fst (fst x)) = true) -> tls_failed u = false) ->
+  LInv (set_tls_present true (set_secured true (set_tls_verdicts v u))).
+Proof.
+  intros L Nc NT OM. constructor.
+  - intro A. contradiction.
+  - exact (li_XF u L).
+  - intro A. contradiction.
+  - exact (li_XS u L).
+  - exact (li_XP u L).
+  - exact (li_TMF u L).
+  - exact (li_POA u L).
+  - exact (li_POT u L).
+  - exact (li_POP u L).
+  - intro A. split; [reflexivity|]. apply (li_O u L A).
+  - exact (li_R u L).
+  - exact (li_RP u L).
+  - exact (li_RAW u L).
+  - exact (li_STUB u L).
+  - exact (li_COMP u L).
+  - exact (li_Q u L).
+  - intros A B. unfold is_secured. cbn. change (tls_failed (set_tls_verdicts v u)) with (tls_failed u).
+    rewrite (OM A B). reflexivity.
+  - exact (li_D u L).
+  - exact (li_L u L).
+  - exact (li_PL u L).
+Qed.
+Lemma linv_tls_down v e u :
+  LInv u ->
+  (f_tls_mandatory u = true -> (hasS u \/ exists x, In x (sendq u) /\ is_cred (fst (fst x)) = true) -> False) ->
+  LInv (set_tls_present false (set_tls_failed true (set_err e (set_tls_verdicts v u)))).
+Proof.
+  intros L OM. constructor.
+  - exact (li_C u L).
+  - exact (li_XF u L).
+  - exact (li_XT u L).
+  - exact (li_XS u L).
+  - exact (li_XP u L).
+  - exact (li_TMF u L).
+  - exact (li_POA u L).
+  - exact (li_POT u L).
+  - exact (li_POP u L).
+  - exact (li_O u L).
+  - exact (li_R u L).
+  - exact (li_RP u L).
+  - exact (li_RAW u L).
+  - exact (li_STUB u L).
+  - exact (li_COMP u L).
+  - exact (li_Q u L).
+  - intros A B. destruct (OM A B).
+  - exact (li_D u L).
+  - exact (li_L u L).
+  - exact (li_PL u L).
+Qed.
+
+Lemma apre0_not_raw k s : LInv s -> APre0 k s -> is_raw s = false.
+Proof.
+  intros L A. destruct (is_raw s) eqn:R; [|reflexivity]. destruct (li_RAW s L R) as [_ [X _]].
+  destruct (authh_not_base k (a0_k k s A)) as [_ [_ Y]]. exfalso. apply Y. apply X. exact (a0_in k s A).
+Qed.
+Lemma quiet_after_del k s : APre0 k s -> quietS (h_del k s).
+Proof.
+  intro A. split; [|split].
+  - intros k' H. apply In_hk_h_del in H as [H N]. destruct (a0_hk k s A k' H); [assumption|contradiction].
+  - exact (a0_tm k s A).
+  - exact (a0_pp k s A).
+Qed.
+
+Lemma vpost_prepare_post eo h u :
+  (h = OpenSasl \/ h = OpenCompress) -> VPost eo u -> quietS u -> is_raw u = false -> VPost eo (prepare_reset h u).
+Proof.
+  intros Hh [[G Lv] C] [Q1 [Q2 Q3]] NR. split; [|exact C].
+  split; [destruct G as [G1 G2]; constructor; [exact G1|exact G2]|]. intro L'. specialize (Lv L').
+  destruct C as [_ [Po [Nc _]]]. specialize (Po eq_refl).
+  assert (NA : noauth u).
+  { repeat split; try exact Q2; intro X.
+    - specialize (Q1 _ X). discriminate.
+    - specialize (Q1 _ X). discriminate.
+    - destruct X as [k [X Y]]. specialize (Q1 _ X). destruct k; discriminate. }
+  destruct NA as [N1 [N2 [N3 N4]]].
+  unfold prepare_reset. destruct Hh; subst h.
+  all: apply linv_set_oh; [exact Lv|..].
+  all: try (intro X; contradiction).
+  all: try tauto.
+  all: try (intros _ X; discriminate X).
+  all: try (intro X; discriminate X).
+  all: try (intros _; repeat split; assumption).
+  all: try (intros _ _ _; rewrite Po; discriminate).
+  all: try (intro X; rewrite NR in X; discriminate X).
+  all: intros [X|X]; discriminate X.
+Qed.
+
+(* SASL success: the handler goes away and the stream is restarted *)
+Lemma visit_leave eo k h s :
+  GInv s -> live s -> LInv s -> APre0 k s -> (h = OpenSasl \/ h = OpenCompress) ->
+  VPost eo (h_del k (conn_open_stream (prepare_reset h s))).
+Proof.
+  intros G Lv L A Hh. rewrite h_del_comm.
+  assert (V : VPost eo (h_del k s)).
+  { eapply (visit_quiet eo k s s [] pnone); try eassumption; try reflexivity; cbn; try tauto;
+      first [apply eff_refl | intros [x [[] _]]]. }
+  assert (V2 : VPost eo (prepare_reset h (h_del k s))).
+  { apply vpost_prepare_post; [exact Hh|exact V|apply quiet_after_del; exact A|]. exact (apre0_not_raw k s L A). }
+  change (JT false true true eo (conn_open_stream (prepare_reset h (h_del k s)))).
+  change (JT false true true eo (prepare_reset h (h_del k s))) in V2. repeat peelJ.
+Qed.
+
+Lemma apre_of_XS k s : LInv s -> In k (hk s) -> is_saslh k = true -> ps s = POpen -> st s <> Connecting -> APre k s.
+Proof.
+  intros L K S P N. destruct (li_XS s L k K S) as [A [B [C [D [E F]]]]].
+  constructor; auto.
+Qed.
+
+Lemma visit_xd eo now k s : GInv s -> live s -> LInv s -> APre0 k s -> VPost eo (h_del k (xmpp_disconnect now s)).
+Proof.
+  intros G Lv L A.
+  eapply visit_quiet; try eassumption; [apply xmpp_disconnect_eff|reflexivity|..]; cbn; try tauto.
+  - intros x [X|X]; right; unfold benignE; rewrite X; reflexivity.
+  - intros k0 X; subst; discriminate.
+  - intros [x [[X|X] Y]]; subst x; discriminate.
+Qed.
+
+Lemma visit_sasl_result eo now e k s :
+  GInv s -> live s -> LInv s -> APre k s -> VPost eo (h_del k (fst (sasl_result now e s))).
+Proof.
+  intros G Lv L A. unfold sasl_result. destruct (e_name e); cbn [fst ret];
+    try (apply visit_xd; try assumption; apply apre0; exact A).
+  - eapply visit_body; try eassumption. apply auth_body_spec. apply (gi_T s G).
+  - apply visit_leave; try assumption; [apply apre0; exact A|]. destruct (f_comp_allowed s); auto.
+Qed.
+
+Lemma visit_response eo k s :
+  GInv s -> live s -> LInv s -> APre k s -> is_saslh k = true -> VPost eo (send_gated WResponse false false s).
+Proof.
+  intros G Lv L A S.
+  eapply (auth_move eo k s _ _ _ WResponse k); try eassumption; [apply send_gated_eff|reflexivity|..]; cbn; try tauto; try discriminate.
+  - intros k' H.
+    assert (X : hk (send_gated WResponse false false s) = hk s).
+    { pose proof (send_gated_eff WResponse false false s) as E. exact (ef_U _ _ _ _ E Fh eq_refl). }
+    rewrite X in H. exact (ap_hk k s A k' H).
+  - intros a X. assert (Y : sasl (send_gated WResponse false false s) = sasl s).
+    { pose proof (send_gated_eff WResponse false false s) as E. exact (ef_U _ _ _ _ E Fsasl eq_refl). }
+    rewrite Y. exact X.
+  - intro M. apply (li_M s L M). left. exists k. split; [exact (ap_in k s A)|exact S].
+Qed.
+
+Lemma visit_sasl eo now e k s :
+  is_saslh k = true -> In k (hk s) -> GInv s -> live s -> LInv s -> ps s = POpen -> st s <> Connecting ->
+  VPost eo (if snd (call_handler k now e s) then fst (fst (call_handler k now e s))
+            else h_del k (fst (fst (call_handler k now e s)))).
+Proof.
+  intros S K G Lv L P N. pose proof (apre_of_XS k s L K S P N) as A.
+  destruct k; try discriminate S; cbv beta iota delta [call_handler].
+  - rewrite (pair_eta (sasl_result now e s)). cbn [fst snd]. apply visit_sasl_result; assumption.
+  - destruct (e_name e); try (rewrite (pair_eta (sasl_result now e s)); cbn [fst snd]; apply visit_sasl_result; assumption).
+    destruct (negb (e_ch_ok e)); cbn [fst snd]; [apply visit_xd; try assumption; apply apre0; exact A|].
+    (* the rspauth handler replaces the challenge handler *)
+    assert (E : eff [Fh; Fsq; FhD] (mkP (fun x => x = (WResponse, false, negb (sm_enabled s)) \/ x = (WReq, false, true))
+                  (fun k0 => k0 = HDigestRspauth) (fun _ => False) (fun _ => False)) s
+                  (h_del HDigestChallenge (send_gated WResponse false false (h_add HDigestRspauth s)))).
+    { assert (E1 : eff [Fh; Fsq] (mkP (fun x => x = (WResponse, false, negb (sm_enabled s)) \/ x = (WReq, false, true))
+                  (fun k0 => k0 = HDigestRspauth) (fun _ => False) (fun _ => False)) s
+                  (send_gated WResponse false false (h_add HDigestRspauth s))).
+      { eapply eff_seq; [apply h_add_eff|apply send_gated_eff|solve_sub| |]; psolve.
+        assert (Es : sm_enabled (h_add HDigestRspauth s) = sm_enabled s) by (unfold h_add; break_if; reflexivity).
+        intros x [X|X]; subst; [left|right; reflexivity]. unfold qa_entry. cbn. rewrite Es. reflexivity. }
+      eapply eff_seq; [exact E1|apply (h_del_eff pnone)|solve_sub|apply pimp_refl|apply pimp_none]. }
+    eapply (auth_move eo HDigestChallenge s _ _ _ WResponse HDigestRspauth); try eassumption; try reflexivity; try (cbn; tauto); try discriminate.
+    + intros k' H. apply In_hk_h_del in H as [H Nk].
+      assert (X : In k' (hk (h_add HDigestRspauth s))).
+      { pose proof (send_gated_eff WResponse false false (h_add HDigestRspauth s)) as E0.
+        pose proof (ef_U _ _ _ _ E0 Fh eq_refl) as Y. unfold eq_on in Y. rewrite <- Y. exact H. }
+      apply In_hk_h_add in X as [X|X]; [|right; exact X].
+      destruct (ap_hk _ s A k' X); [left; assumption|contradiction].
+    + intros a X.
+      assert (Y : sasl (h_del HDigestChallenge (send_gated WResponse false false (h_add HDigestRspauth s))) = sasl s).
+      { assert (Z : fmem Fsasl ([Fh; Fsq; FhD] ++ DISC) = false) by reflexivity. exact (ef_U _ _ _ _ E Fsasl Z). }
+      rewrite Y. exact X.
+    + intro M. apply (li_M s L M). left. exists HDigestChallenge. split; [exact K|reflexivity].
+  - destruct (e_name e); try (rewrite (pair_eta (sasl_result now e s)); cbn [fst snd]; apply visit_sasl_result; assumption).
+    cbn [fst snd]. eapply visit_response; eassumption.
+  - destruct (e_name e); try (rewrite (pair_eta (sasl_result now e s)); cbn [fst snd]; apply visit_sasl_result; assumption).
+    destruct (negb (e_ch_text e) || negb (e_ch_scram_ok e)); cbn [fst snd]; [apply visit_xd; try assumption; apply apre0; exact A|].
+    eapply visit_response; eassumption.
+Qed.
+
+(* ------------------------------------------------------------------ <proceed/>: TLS starts, the stream restarts *)
+Lemma vpost_prepare_tls eo u :
+  VPost eo u -> quietS u -> is_raw u = false -> secured u = true ->
+  (g_strong (gh u) = true -> strong_in u) -> g_feat_seen (gh u) = true ->
+  VPost eo (prepare_reset OpenTls u).
+Proof.
+  intros [[G Lv] C] [Q1 [Q2 Q3]] NR Sec Pl Gf. split; [|exact C].
+  split; [destruct G as [G1 G2]; constructor; [exact G1|exact G2]|]. intro L'. specialize (Lv L').
+  destruct C as [_ [Po [Nc _]]]. specialize (Po eq_refl).
+  assert (N1 : ~ hasF u) by (intro X; specialize (Q1 _ X); discriminate).
+  assert (N2 : ~ hasT u) by (intro X; specialize (Q1 _ X); discriminate).
+  assert (N3 : ~ hasS u) by (intros [k [X Y]]; specialize (Q1 _ X); destruct k; discriminate).
+  assert (Cn : st u = Connected) by (destruct (st u) eqn:X; [exfalso; apply L'; exact X|congruence|reflexivity]).
+  unfold prepare_reset. apply linv_set_oh; [exact Lv|..].
+  all: try (intro X; contradiction).
+  all: try tauto.
+  all: try (intros _ X; discriminate X).
+  all: try (intro X; discriminate X).
+  - intros _ _. split; [split; [exact Q1|split; [exact Q2|exact Q3]]|]. split; [exact Pl|intros _; exact Gf].
+  - intros [X|X]; discriminate X.
+  - intros _ _ _. rewrite Po. discriminate.
+  - intro X. rewrite NR in X. discriminate X.
+  - intros [X|X]; discriminate X.
+Qed.
+
+Lemma apre0_of_XT s : LInv s -> hasT s -> ps s = POpen -> st s <> Connecting -> APre0 HProceedTls s.
+Proof.
+  intros L K P N. destruct (li_XT s L K) as [A [B [C _]]].
+  constructor; auto. right. left. reflexivity.
+Qed.
+
+Lemma visit_tls eo now e s :
+  hasT s -> GInv s -> live s -> LInv s -> ps s = POpen -> st s <> Connecting ->
+  VPost eo (h_del HProceedTls (fst (fst (call_handler HProceedTls now e s)))).
+Proof.
+  intros K G Lv L P N. pose proof (apre0_of_XT s L K P N) as A.
+  destruct (li_XT s L K) as [X1 [X2 [X3 [X4 [X5 [X6 X7]]]]]].
+  assert (NOC : f_tls_mandatory s = true -> (hasS s \/ exists x, In x (sendq s) /\ is_cred (fst (fst x)) = true) -> False).
+  { intros M B. pose proof (li_M s L M B) as Y. unfold is_secured in Y. rewrite X4 in Y. discriminate. }
+  assert (VQ : VPost eo (h_del HProceedTls s)).
+  { eapply (visit_quiet eo _ s s [] pnone); try eassumption; try reflexivity; cbn; try tauto;
+      first [apply eff_refl | intros [x [[] _]]]. }
+  cbv beta iota delta [call_handler].
+  destruct (e_name e); cbn [fst]; try exact VQ.
+  unfold conn_tls_start. cbv zeta.
+  destruct (f_tls_disabled s); [cbn [fst]; apply visit_xd; assumption|].
+  destruct (negb (tlsnew_ok s)); [cbn [fst]; apply visit_xd; assumption|].
+  set (v := tl (tls_verdicts s)).
+  destruct (match tls_verdicts s with [] => true | b :: _ => b end); cbn [fst].
+  - (* TLS is up *)
+    rewrite h_del_comm.
+    set (u := h_del HProceedTls s) in *.
+    change (h_del HProceedTls (set_tls_present true (set_secured true (set_tls_verdicts v s))))
+      with (set_tls_present true (set_secured true (set_tls_verdicts v u))).
+    set (u1 := set_tls_present true (set_secured true (set_tls_verdicts v u))).
+    pose proof (quiet_after_del _ s A) as Qu. fold u in Qu.
+    assert (V1 : VPost eo u1).
+    { destruct VQ as [[Gu Lu] Cu]. split; [|exact Cu]. split; [destruct Gu as [G1 G2]; constructor; [exact G1|exact G2]|].
+      intro L1. apply linv_tls_up; [apply Lu; exact L1|exact N| |].
+      - intro X. destruct Qu as [Q1 _]. specialize (Q1 _ X). discriminate.
+      - intros M B. exfalso. apply (NOC M). destruct B as [[k [B1 B2]]|B]; [|right; exact B].
+        left. exists k. split; [|exact B2]. unfold u in B1. apply In_hk_h_del in B1. tauto. }
+    assert (V2 : VPost eo (prepare_reset OpenTls u1)).
+    { apply vpost_prepare_tls; try assumption; try reflexivity.
+      - exact (apre0_not_raw _ s L A).
+      - intro Y. apply (X7 Y). }
+    change (JT false true true eo (conn_open_stream (prepare_reset OpenTls u1))).
+    change (JT false true true eo (prepare_reset OpenTls u1)) in V2. repeat peelJ.
+  - (* the handshake failed *)
+    set (s1 := set_tls_present false (set_tls_failed true (set_err EPROTO (set_tls_verdicts v s)))).
+    apply visit_xd.
+    + destruct G as [G1 G2]. constructor; [exact G1|exact G2].
+    + exact Lv.
+    + apply linv_tls_down; [exact L|exact NOC].
+    + destruct A as [A1 A2 A3 A4 A5 A6 A7]. constructor; assumption.
+Qed.
+
+(* ------------------------------------------------------------------ <stream:features> in the authentication phase *)
+Definition hf_pre (e : elem) (s : state) : state :=
+  let s0 := timed_del TMissingFeaturesSasl (timed_del TMissingFeatures s) in
+  let s1 := if secured s0 then s0
+            else if f_tls_disabled s0 then set_tls_support false s0
+            else if e_starttls e then set_tls_support true s0 else s0 in
+  let offered := filter (fun m => match m with MExternal => cert_set s1 | _ => true end) (e_mechs e) in
+  let s2 := set_sasl (fold_left (fun l m => add_mech m l) offered (sasl s1)) s1 in
+  if existsb (fun m => negb (is_plain_or_anon m)) (sasl s2) then set_sasl (del_mech MPlain (sasl s2)) s2 else s2.
+Lemma call_HFeatures_eq now e s :
+  call_handler HFeatures now e s = let '(s4, o) := auth 1 now (hf_pre e s) in (s4, o, false).
+Proof. reflexivity. Qed.
+
+Lemma hf_pre_facts e s :
+  eff [Ft; Ftlss; Fsasl] pnone s (hf_pre e s) /\
+  ~ hasTMF (hf_pre e s) /\
+  (tls_support s = false -> tls_support (hf_pre e s) = true -> secured s = false /\ f_tls_disabled s = false) /\
+  sasl (hf_pre e s) = sasl_after (cert_set s) (e_mechs e) (sasl s).
+Proof.
+  unfold hf_pre. cbv zeta.
+  set (s0 := timed_del TMissingFeaturesSasl (timed_del TMissingFeatures s)).
+  assert (E0 : eff [Ft] pnone s s0).
+  { unfold s0. eapply eff_seq; [apply (timed_del_eff pnone)|apply (timed_del_eff pnone)|solve_sub|apply pimp_refl|apply pimp_refl]. }
+  assert (T0 : ~ hasTMF s0).
+  { unfold s0, hasTMF. intro X. apply In_tk_timed_del in X as [X _]. apply In_tk_timed_del in X as [_ X]. congruence. }
+  assert (P0 : secured s0 = secured s /\ f_tls_disabled s0 = f_tls_disabled s /\ tls_support s0 = tls_support s /\
+               sasl s0 = sasl s /\ cert_set s0 = cert_set s) by (repeat split; reflexivity).
+  destruct P0 as [P1 [P2 [P3 [P4 P5]]]]. clearbody s0.
+  set (s1 := if secured s0 then s0 else _).
+  assert (E1 : eff [Ftlss] pnone s0 s1 /\ tk s1 = tk s0 /\ sasl s1 = sasl s0 /\ cert_set s1 = cert_set s0 /\
+               (tls_support s0 = false -> tls_support s1 = true -> secured s0 = false /\ f_tls_disabled s0 = false)).
+  { unfold s1. destruct (secured s0) eqn:A.
+    { split; [apply eff_refl|]. split; [reflexivity|]. split; [reflexivity|]. split; [reflexivity|]. intros; congruence. }
+    destruct (f_tls_disabled s0) eqn:B.
+    { split; [eff_frame|]. split; [reflexivity|]. split; [reflexivity|]. split; [reflexivity|]. cbn. intros; congruence. }
+    destruct (e_starttls e).
+    { split; [eff_frame|]. split; [reflexivity|]. split; [reflexivity|]. split; [reflexivity|]. intros; split; reflexivity. }
+    split; [apply eff_refl|]. split; [reflexivity|]. split; [reflexivity|]. split; [reflexivity|]. intros; congruence. }
+  destruct E1 as [E1 [T1 [S1 [C1 X1]]]]. clearbody s1.
+  set (l2 := fold_left _ _ (sasl s1)).
+  assert (EQ : l2 = fold_left (fun l m => add_mech m l)
+                  (filter (fun m => match m with MExternal => cert_set s | _ => true end) (e_mechs e)) (sasl s)).
+  { unfold l2. rewrite C1, P5, S1, P4. reflexivity. }
+  change (sasl (set_sasl l2 s1)) with l2.
+  assert (R : forall s3, (s3 = set_sasl (del_mech MPlain l2) (set_sasl l2 s1) \/ s3 = set_sasl l2 s1) ->
+              eff [Ft; Ftlss; Fsasl] pnone s s3 /\ ~ hasTMF s3 /\
+              (tls_support s = false -> tls_support s3 = true -> secured s = false /\ f_tls_disabled s = false)).
+  { intros s3 H3.
+    assert (E3 : eff [Fsasl] pnone s1 s3) by (destruct H3; subst; eff_frame).
+    assert (T3 : tk s3 = tk s1 /\ tls_support s3 = tls_support s1) by (destruct H3; subst; split; reflexivity).
+    destruct T3 as [T3 U3]. split; [|split].
+    - assert (E01 : eff [Ft; Ftlss] pnone s s1) by
+        (eapply eff_seq; [exact E0|exact E1|solve_sub|apply pimp_refl|apply pimp_refl]).
+      eapply eff_seq; [exact E01|exact E3|solve_sub|apply pimp_refl|apply pimp_refl].
+    - unfold hasTMF. rewrite T3, T1. exact T0.
+    - rewrite U3, <- P1, <- P2, <- P3. exact X1. }
+  destruct (existsb (fun m => negb (is_plain_or_anon m)) l2) eqn:Ex.
+  - destruct (R _ (or_introl eq_refl)) as [A [B C]]. split; [exact A|]. split; [exact B|]. split; [exact C|].
+    change (sasl (set_sasl (del_mech MPlain l2) (set_sasl l2 s1))) with (del_mech MPlain l2).
+    unfold sasl_after. cbv zeta. rewrite <- EQ, Ex. reflexivity.
+  - destruct (R _ (or_intror eq_refl)) as [A [B C]]. split; [exact A|]. split; [exact B|]. split; [exact C|].
+    change (sasl (set_sasl l2 s1)) with l2.
+    unfold sasl_after. cbv zeta. rewrite <- EQ, Ex. reflexivity.
+Qed.
+
+(* STARTTLS is requested: HProceedTls replaces HFeatures *)
+Lemma tls_move eo s t c p :
+  (forall w, In w (sw s) -> is_neg w = false) -> live s -> LInv s -> APre HFeatures s ->
+  eff c p s t -> subl c [Ftlss; Fsq; Fh; FhD] = true -> tls_support t = false ->
+  (forall x, pw p x -> x = (WStartTls, false, negb (sm_enabled s)) \/ x = (WReq, false, true)) ->
+  (forall i, ~ pid p i) -> (forall k0, ~ pt p k0) ->
+  (forall k', In k' (hk t) -> is_baseh k' = true \/ k' = HProceedTls) ->
+  secured s = false -> f_tls_disabled s = false ->
+  (g_strong (gh s) = true -> strong_in s) ->
+  VPost eo t.
+Proof.
+  intros G Lv L A E Sub Tt Pw Pi Pt HK Sec Dis Pl.
+  pose proof (subl_ok _ _ Sub) as W.
+  assert (Est : st t = st s) by (apply (ef_nd _ _ _ _ E); apply W; reflexivity).
+  assert (Lt : live t) by (unfold live; rewrite Est; exact Lv).
+  assert (F : frame [Ftlss; Fsq; Fh; FhD] s t) by (eapply frame_weaken; [exact W|exact (ef_L _ _ _ _ E Lt)]).
+  destruct (ap_pp _ s A) as [PP1 PP2].
+  assert (NF : ~ hasF t) by (intro X; destruct (HK _ X) as [Y|Y]; discriminate).
+  assert (NS : forall k2, In k2 (hk t) -> is_saslh k2 = true -> False).
+  { intros k2 K2 S2. destruct (HK _ K2) as [Y|Y]; [destruct k2; discriminate|subst; discriminate]. }
+  assert (PPt : prepost t).
+  { split; [|rewrite (F Fsme eq_refl); exact PP2]. intros i H.
+    destruct (ef_i _ _ _ _ E _ H) as [X|X]; [auto|destruct (Pi _ X)]. }
+  assert (TMt : ~ hasTMF t).
+  { intro X. destruct (ef_t _ _ _ _ E _ X) as [Y|Y]; [apply (ap_tm _ s A Y)|destruct (Pt _ Y)]. }
+  destruct (ef_sq _ _ _ _ E) as [l [Q Al]]. rewrite Forall_forall in Al.
+  assert (NEW : forall x, In x l -> x = (WStartTls, false, true) \/ is_neg (fst (fst x)) = false).
+  { intros x H. destruct (Al x H) as [X|X]; [|right; apply (G _ X)].
+    destruct (Pw x X) as [Y|Y]; [left; rewrite Y, PP2; reflexivity|right; rewrite Y; reflexivity]. }
+  assert (Esec : is_secured t = is_secured s) by (apply is_secured_frame; [exact (F Fsec eq_refl)|exact (F Ftlsf eq_refl)|exact (F Ftlsp eq_refl)]).
+  assert (OA : oh s = OpenAuth).
+  { destruct (ap_oh _ s A) as [X|X]; [exact X|]. destruct (li_O s L X) as [Y _]. congruence. }
+  split.
+  - split.
+    + constructor; [exact Tt|]. intros w0 H. apply G. apply (ef_smq _ _ _ _ E). exact H.
+    + intros _.
+      apply (linv_transfer2 s t HFeatures (ap_in _ s A) (apre_authh _ s A) L (F Fraw eq_refl)
+               Est (F Frp eq_refl) (F Foh eq_refl) (F Fps eq_refl)); try assumption.
+      * intros k' H. destruct (HK k' H) as [X|X]; [left; exact X|right; right; left; exact X].
       * intro X. contradiction.
-      * intro X. contradiction.
-      * intros k2 K2 S2. destruct (HK k2 K2) as [[X|X] N]; [destruct k2; discriminate|]. subst k2.
-        split; [intros k' H; destruct (HK k' H) as [Y _]; exact Y|]. split; [exact PPt|]. split; [exact TMt|].
-        rewrite (F Foh eq_refl), (F Fgf eq_refl), (F Fgs eq_refl), Esaslt.
-        split; [exact (ap_oh k s A)|]. split; [exact (ap_gf k s A)|].
-        intro X. apply mem_del_false. apply (ap_pl k s A X).
+      * intros _. split; [exact HK|]. split; [exact PPt|]. split; [exact TMt|].
+        rewrite (F Fsec eq_refl), (F Foh eq_refl), (F Fgf eq_refl), (F Fgs eq_refl).
+        split; [exact Sec|]. split; [exact OA|]. split; [exact (ap_gf _ s A)|].
+        intro X. unfold strong_in. rewrite (F Fsasl eq_refl). split; [exact (Pl X)|exact (ap_pl _ s A X)].
+      * intros k2 K2 S2. destruct (NS k2 K2 S2).
       * intros x H B. destruct (In_app_sendq s t l x Q H) as [X|X]; [apply (li_Q s L x X B)|].
         destruct (NEW x X) as [Y|Y]; [subst x; discriminate B|exact Y].
-      * intros M _. rewrite (F Fmand eq_refl) in M. rewrite Esec. auto.
-      * intros D x H. rewrite (F Fdis eq_refl) in D. destruct (In_app_sendq s t l x Q H) as [X|X]; [apply (li_D s L D x X)|].
-        destruct (NEW x X) as [Y|Y]; [subst x; discriminate|]. intro Z. rewrite Z in Y. discriminate.
+      * intros M [[k2 [K2 S2]]|[x [H B]]]; [destruct (NS k2 K2 S2)|].
+        rewrite (F Fmand eq_refl) in M. rewrite Esec.
+        destruct (In_app_sendq s t l x Q H) as [X|X]; [apply (li_M s L M); right; exists x; auto|].
+        destruct (NEW x X) as [Y|Y]; [subst x; discriminate B|]. apply is_cred_neg in B. congruence.
+      * intros D. rewrite (F Fdis eq_refl) in D. congruence.
       * intros x H B. destruct (In_app_sendq s t l x Q H) as [X|X].
         { rewrite (F Flauth eq_refl), (F Ftyp eq_refl). apply (li_L s L x X B). }
         destruct (NEW x X) as [Y|Y]; [subst x; discriminate B|]. rewrite B in Y. discriminate.
       * intros x H B. rewrite (F Fgs eq_refl), (F Fgf eq_refl), (F Fps eq_refl).
         destruct (In_app_sendq s t l x Q H) as [X|X]; [apply (li_PL s L x X B)|].
-        destruct (NEW x X) as [Y|Y]; [|rewrite B in Y; discriminate]. subst x. cbn in B. inv B.
-        split; [|split; [exact (ap_gf k s A)|rewrite (ap_ps k s A); discriminate]].
-        destruct (g_strong (gh s)) eqn:Gs; [|reflexivity]. rewrite (ap_pl k s A eq_refl) in Hm. discriminate.
-      * intro X. rewrite (F Foh eq_refl) in X. rewrite (F Fsec eq_refl). apply (li_O s L X).
-  - split; [intro X; discriminate X|]. split; [intros _; rewrite (F Fps eq_refl); exact (ap_ps k s A)|].
-    split; [rewrite Est; exact (ap_st k s A)|]. split; [intros _ X; contradiction|].
-    intros _ X. rewrite Est in X. contradiction.
+        destruct (NEW x X) as [Y|Y]; [subst x; discriminate B|rewrite B in Y; discriminate].
+      * intro X. rewrite (F Foh eq_refl) in X. congruence.
+  - split; [intro X; discriminate X|]. split; [intros _; rewrite (F Fps eq_refl); exact (ap_ps _ s A)|].
+    split; [rewrite Est; exact (ap_st _ s A)|]. split; [intros _ X; contradiction|].
+    split; [intros _; split; [intro X; rewrite Est in X; contradiction|intro X; contradiction]|intro X; contradiction].
+Qed.
+
+Lemma linv_set_tlss b s : LInv s -> LInv (set_tls_support b s).
+Proof.
+  intro L. constructor.
+  - exact (li_C s L). - exact (li_XF s L). - exact (li_XT s L). - exact (li_XS s L). - exact (li_XP s L).
+  - exact (li_TMF s L). - exact (li_POA s L). - exact (li_POT s L). - exact (li_POP s L). - exact (li_O s L).
+  - exact (li_R s L). - exact (li_RP s L). - exact (li_RAW s L). - exact (li_STUB s L). - exact (li_COMP s L).
+  - exact (li_Q s L). - exact (li_M s L). - exact (li_D s L). - exact (li_L s L). - exact (li_PL s L).
+Qed.
+Lemma apre_set_tlss b k s : APre k s -> APre k (set_tls_support b s).
+Proof. intros [A1 A2 A3 A4 A5 A6 A7 A8 A9 A10]. constructor; assumption. Qed.
+
+Lemma visit_features now e Q s :
+  hasF s -> GInv s -> live s -> LInv s -> ps s = POpen -> st s <> Connecting -> crashed s = false ->
+  is_feat e = true -> VD (Some e, Q) s ->
+  VPost (Some e, Q) (h_del HFeatures (fst (fst (call_handler HFeatures now e s)))).
+Proof.
+  intros K G Lv L P N Cr Fe D.
+  rewrite call_HFeatures_eq. rewrite (pair_eta (auth 1 now (hf_pre e s))). cbn [fst].
+  destruct (hf_pre_facts e s) as [E3 [T3 [Tl Sa]]]. set (s3 := hf_pre e s) in *.
+  destruct (li_XF s L K) as [X1 [[X2a X2b] [X3 [X4 X5]]]].
+  destruct (D Lv K) as [D1 D2]. specialize (D1 e eq_refl Fe). specialize (D2 Cr).
+  assert (Est : st s3 = st s) by (apply (ef_nd _ _ _ _ E3); reflexivity).
+  assert (L3v : live s3) by (unfold live; rewrite Est; exact Lv).
+  pose proof (ef_L _ _ _ _ E3 L3v) as F.
+  assert (Ehk : hk s3 = hk s) by exact (F Fh eq_refl).
+  assert (Eik : ik s3 = ik s) by exact (F Fid eq_refl).
+  assert (Esq : sendq s3 = sendq s) by exact (F Fsq eq_refl).
+  assert (PL : g_strong (gh s3) = true -> strong_in s3 /\ mem_mech MPlain (sasl s3) = false).
+  { intro Y. rewrite (F Fgs eq_refl) in Y. unfold strong_in. rewrite Sa. apply sasl_after_strong.
+    destruct (D2 Y) as [Z|[e' [Z1 [Z2 Z3]]]]; [left; exact Z|right]. cbn in Z1. inv Z1. exact Z3. }
+  assert (K3 : In HFeatures (hk s3)) by (rewrite Ehk; exact K).
+  assert (PP3 : prepost s3) by (split; [rewrite Eik; exact X2a|rewrite (F Fsme eq_refl); exact X2b]).
+  assert (Esec : is_secured s3 = is_secured s) by (apply is_secured_frame; [exact (F Fsec eq_refl)|exact (F Ftlsf eq_refl)|exact (F Ftlsp eq_refl)]).
+  assert (L3 : LInv s3).
+  { apply (linv_transfer2 s s3 HFeatures K (or_introl eq_refl) L (F Fraw eq_refl) Est (F Frp eq_refl) (F Foh eq_refl) (F Fps eq_refl)); try assumption.
+    - intros k' H. rewrite Ehk in H. destruct (X1 k' H) as [Y|Y]; [left; exact Y|right; left; exact Y].
+    - intros _. split; [rewrite Ehk; exact X1|]. split; [exact PP3|]. rewrite (F Foh eq_refl).
+      split; [exact X3|]. split; intro Y; contradiction.
+    - intro Y. unfold hasT in Y. rewrite Ehk in Y. destruct (X1 _ Y); discriminate.
+    - intros k2 K2 S2. rewrite Ehk in K2. destruct (X1 _ K2) as [Y|Y]; [destruct k2; discriminate|subst; discriminate].
+    - rewrite Esq. exact (li_Q s L).
+    - intros M B. rewrite (F Fmand eq_refl) in M. rewrite Esec. apply (li_M s L M).
+      destruct B as [[k2 [B1 B2]]|B]; [left; exists k2; rewrite <- Ehk; auto|right; rewrite <- Esq; exact B].
+    - rewrite Esq, (F Fdis eq_refl). exact (li_D s L).
+    - rewrite Esq, (F Flauth eq_refl), (F Ftyp eq_refl). exact (li_L s L).
+    - rewrite Esq, (F Fgs eq_refl), (F Fgf eq_refl), (F Fps eq_refl). exact (li_PL s L).
+    - intro Y. rewrite (F Foh eq_refl) in Y. rewrite (F Fsec eq_refl). apply (li_O s L Y). }
+  assert (A3 : APre HFeatures s3).
+  { constructor; try assumption.
+    - left. reflexivity.
+    - rewrite Ehk. exact X1.
+    - rewrite (F Foh eq_refl). exact X3.
+    - rewrite (F Fgf eq_refl). exact D1.
+    - intro Y. apply (PL Y).
+    - rewrite (F Fps eq_refl). exact P.
+    - rewrite Est. exact N. }
+  assert (S3 : forall w, In w (sw s3) -> is_neg w = false).
+  { intros w H. apply (gi_S s G). pose proof (F Fsmq eq_refl) as Y. unfold eq_on in Y. rewrite <- Y. exact H. }
+  pose proof (auth_spec now s3) as AR.
+  remember (fst (auth 1 now s3)) as s4. remember (snd (auth 1 now s3)) as o. clear Heqs4 Heqo.
+  destruct AR as [Et En|s0 s4 o Hs0 Ht Hb].
+  - (* STARTTLS *)
+    destruct (Tl (gi_T s G) Et) as [Sec Dis].
+    set (t1 := send_gated WStartTls false false (h_add HProceedTls s3)).
+    assert (E1 : eff [Fh; Fsq] (mkP (fun x => x = (WStartTls, false, negb (sm_enabled s3)) \/ x = (WReq, false, true))
+                   (fun k0 => k0 = HProceedTls) (fun _ => False) (fun _ => False)) s3 t1).
+    { unfold t1. eapply eff_seq; [apply h_add_eff|apply send_gated_eff|solve_sub| |]; psolve.
+      assert (Es : sm_enabled (h_add HProceedTls s3) = sm_enabled s3) by (unfold h_add; break_if; reflexivity).
+      intros x [X|X]; subst; [left|right; reflexivity]. unfold qa_entry. cbn. rewrite Es. reflexivity. }
+    assert (E2 : eff [Fh; Fsq; Ftlss] (mkP (fun x => x = (WStartTls, false, negb (sm_enabled s3)) \/ x = (WReq, false, true))
+                   (fun k0 => k0 = HProceedTls) (fun _ => False) (fun _ => False)) s3 (set_tls_support false t1)).
+    { eapply (eff_seq _ _ _ _ [Ftlss] pnone); [exact E1|eff_frame|solve_sub|apply pimp_refl|apply pimp_none]. }
+    assert (E4 : eff [Fh; Fsq; Ftlss; FhD] (mkP (fun x => x = (WStartTls, false, negb (sm_enabled s3)) \/ x = (WReq, false, true))
+                   (fun k0 => k0 = HProceedTls) (fun _ => False) (fun _ => False)) s3 (h_del HFeatures (set_tls_support false t1))).
+    { eapply eff_seq; [exact E2|apply (h_del_eff pnone)|solve_sub|apply pimp_refl|apply pimp_none]. }
+    eapply (tls_move (Some e, Q) s3 _ _ _ S3); try eassumption; try reflexivity; try (cbn; tauto).
+    + intros k' H. apply In_hk_h_del in H as [H Nk].
+      destruct (ef_h _ _ _ _ E2 _ H) as [X|X]; [|right; exact X].
+      rewrite Ehk in X. destruct (X1 k' X) as [Y|Y]; [left; exact Y|contradiction].
+    + rewrite (F Fsec eq_refl). exact Sec.
+    + rewrite (F Fdis eq_refl). exact Dis.
+  - (* the mechanism selection *)
+    assert (G0 : GInv s0).
+    { destruct Hs0 as [[X Y]|X]; subst s0; constructor; try assumption; try reflexivity. }
+    assert (L0 : LInv s0) by (destruct Hs0 as [[X Y]|X]; subst s0; [exact L3|apply linv_set_tlss; exact L3]).
+    assert (A0 : APre HFeatures s0) by (destruct Hs0 as [[X Y]|X]; subst s0; [exact A3|apply apre_set_tlss; exact A3]).
+    assert (Lv0 : live s0) by (destruct Hs0 as [[X Y]|X]; subst s0; exact L3v).
+    eapply visit_body; eassumption.
+Qed.
+
+(* ------------------------------------------------------------------ one visited handler *)
+Lemma filter_match_features e : filter_match HFeatures e = true -> is_feat e = true.
+Proof.
+  unfold filter_match. assert (H : hfilter HFeatures = (Some NsStreams, Some NmFeatures)) by (vm_compute; reflexivity).
+  rewrite H. unfold is_feat. destruct (e_ns e), (e_name e); cbn; congruence.
+Qed.
+
+Lemma vpost_h_del eo k t : VPost eo t -> (k <> HFeatures \/ ~ hasTMF t) -> VPost eo (h_del k t).
+Proof.
+  intros [H [C1 [C2 [C3 [C4 [C5 C6]]]]]] Hk. split.
+  - eapply (hinv_del _ pnone); [exact H|apply h_del_eff|reflexivity|reflexivity|..]; cbn; try tauto.
+    intros T F. destruct Hk as [Hk|Hk]; [|contradiction]. apply In_hk_h_del. split; [exact F|congruence].
+  - split; [intro X; discriminate X|]. split; [exact C2|]. split; [exact C3|]. split; [|split].
+    + intros Lv F. apply In_hk_h_del in F as [F _]. exact (C4 Lv F).
+    + intros X. destruct (C5 X) as [C5a C5b]. split.
+      * intros S. destruct (C5a S) as [A [B D]]. split; [exact A|split; [|exact D]].
+        intros k' K'. apply In_hk_h_del in K' as [K' _]. auto.
+      * intro F. apply In_hk_h_del in F as [F Nk]. unfold h_del. cbn. apply filter_In. split; [exact (C5b F)|].
+        cbn. destruct k; try reflexivity. congruence.
+    + intro F. apply In_hk_h_del in F as [F _]. exact (C6 F).
+Qed.
+Lemma jt_weaken_ev eo t : JT true true true eo t -> VPost eo t.
+Proof. intros [H [C1 C]]. split; [exact H|]. split; [intro X; discriminate X|exact C]. Qed.
+
+Lemma keep_HFeatures now e s : snd (call_handler HFeatures now e s) = false.
+Proof. rewrite call_HFeatures_eq. destruct (auth 1 now (hf_pre e s)). reflexivity. Qed.
+Lemma keep_HProceedTls now e s : snd (call_handler HProceedTls now e s) = false.
+Proof.
+  cbv beta iota delta [call_handler]. destruct (e_name e); try reflexivity.
+  destruct (conn_tls_start s) as [[s1 o] ok]. destruct ok; reflexivity.
+Qed.
+
+Lemma visit_inv now e P r k :
+  VPost (Some e, P) (fst r) -> VPost (Some e, P) (fst (visit now e r k)).
+Proof.
+  destruct r as [s o]. cbn [fst]. intro V. unfold visit.
+  destruct (crashed s) eqn:Cr; [exact V|].
+  destruct (negb (h_has k s)) eqn:Hk; [exact V|].
+  destruct (hkind_eqb k HUser && negb (neg_done s)); [exact V|].
+  destruct (negb (filter_match k e)) eqn:Fm; [exact V|].
+  assert (K : In k (hk s)) by (apply h_has_In; destruct (h_has k s); [reflexivity|discriminate]).
+  assert (FM : filter_match k e = true) by (destruct (filter_match k e); [reflexivity|discriminate]).
+  rewrite (pair_eta (call_handler k now e s)), (pair_eta (fst (call_handler k now e s))). cbn [fst].
+  destruct V as [[G Lv] C]. pose proof C as [_ [Po [Nc [D [LD _]]]]]. specialize (Po eq_refl). specialize (LD eq_refl).
+  destruct (is_baseh k) eqn:Bk.
+  - (* base handlers: also when the connection is already gone *)
+    assert (J : J3 false true true (Some e, P) (call_handler k now e s)) by (apply call_base_J; [exact Bk|split; [split; assumption|exact C]]).
+    unfold J3 in J. destruct (snd (call_handler k now e s)); [exact J|].
+    apply vpost_h_del; [exact J|left; intro X; subst; discriminate].
+  - assert (Lvs : live s).
+    { intro X. destruct LD as [LD _]. destruct (LD X) as [_ [Y _]]. specialize (Y k K). congruence. }
+    specialize (Lv Lvs).
+    destruct (class_cases k) as [Y|[Y|[Y|[Y|Y]]]]; [congruence| | | |].
+    + subst k. rewrite keep_HFeatures.
+      apply visit_features; try assumption; apply filter_match_features; exact FM.
+    + subst k. rewrite keep_HProceedTls. apply visit_tls; assumption.
+    + apply visit_sasl; assumption.
+    + assert (Ev : evP s) by (left; exists k; auto).
+      assert (J : J3 true true true (Some e, P) (call_handler k now e s)).
+      { apply call_post_J; [exact Y|]. split; [split; [exact G|intros _; exact Lv]|].
+        destruct C as [_ C']. split; [intros _; exact Ev|exact C']. }
+      unfold J3 in J. apply jt_weaken_ev in J. destruct (snd (call_handler k now e s)); [exact J|].
+      apply vpost_h_del; [exact J|left; intro X; subst; discriminate].
+Qed.
+Lemma fold_visit_inv now e P ks : forall r, VPost (Some e, P) (fst r) -> VPost (Some e, P) (fst (fold_left (visit now e) ks r)).
+Proof. induction ks as [|k ks IH]; intros r V; simpl; [exact V|]. apply IH. apply visit_inv. exact V. Qed.
+
+Lemma vpost_hf e (P P' : Prop) t : VPost (e, P) t -> (hasF t -> P') -> VPost (e, P') t.
+Proof. intros [H [C1 [C2 [C3 [C4 [C5 C6]]]]]] X. split; [exact H|]. repeat (split; [assumption|]). exact X. Qed.
+
+Lemma features_filter_match e : is_feat e = true -> filter_match HFeatures e = true.
+Proof.
+  unfold filter_match. assert (H : hfilter HFeatures = (Some NsStreams, Some NmFeatures)) by (vm_compute; reflexivity).
+  rewrite H. unfold is_feat. destruct (e_ns e), (e_name e); cbn; congruence.
+Qed.
+
+(* a <stream:features> element reaches HFeatures if it is registered *)
+Definition FoldI (e : elem) (ks : list hkind) (t : state) : Prop :=
+  VPost (Some e, True) t /\ (is_feat e = true -> hasF t -> crashed t = true \/ In HFeatures ks).
+
+Lemma visit_foldI now e k ks r : FoldI e (k :: ks) (fst r) -> FoldI e ks (fst (visit now e r k)).
+Proof.
+  intros [V FF]. destruct r as [s o]. cbn [fst] in *.
+  assert (V' : VPost (Some e, hasF s) (fst (visit now e (s, o) k))).
+  { apply visit_inv. cbn [fst]. apply (vpost_hf _ True); [exact V|auto]. }
+  split; [apply (vpost_hf _ (hasF s)); [exact V'|auto]|].
+  intros Fe F'. destruct V' as [_ [_ [_ [_ [_ [_ NFc]]]]]]. pose proof (NFc F') as F0.
+  destruct (crashed s) eqn:Cr; [left; unfold visit; rewrite Cr; exact Cr|].
+  destruct (FF Fe F0) as [X|[Hk|Hk]]; [discriminate X| |right; exact Hk].
+  subst k. exfalso. revert F'. unfold visit. rewrite Cr.
+  assert (HH : h_has HFeatures s = true) by (apply h_has_In; exact F0).
+  rewrite HH, (features_filter_match e Fe). cbn [negb andb hkind_eqb].
+  rewrite (pair_eta (call_handler HFeatures now e s)), (pair_eta (fst (call_handler HFeatures now e s))).
+  rewrite keep_HFeatures. cbn [fst].
+  destruct V as [[G Lv] [_ [Po [Nc [D [LD _]]]]]].
+  assert (Lvs : live s).
+  { intro X. destruct (LD eq_refl) as [LD1 _]. destruct (LD1 X) as [_ [Y _]]. specialize (Y _ F0). discriminate. }
+  pose proof (visit_features now e False s F0 G Lvs (Lv Lvs) (Po eq_refl) Nc Cr Fe D) as [_ [_ [_ [_ [_ [_ Z]]]]]].
+  exact Z.
+Qed.
+Lemma fold_visit_foldI now e ks : forall r, FoldI e ks (fst r) -> FoldI e [] (fst (fold_left (visit now e) ks r)).
+Proof. induction ks as [|k ks IH]; intros r V; simpl; [exact V|]. apply IH. apply visit_foldI. exact V. Qed.
+
+(* ------------------------------------------------------------------ dispatch of one element *)
+Definition DPre (s : state) : Prop :=
+  HInv s /\ ps s = POpen /\ st s <> Connecting /\ VD (None, True) s /\ LocD s.
+
+Lemma linv_note_rx e s : LInv s -> ps s = POpen -> st s <> Connecting -> LInv (note_rx e s).
+Proof.
+  intros L P N. destruct (note_rx_gh e s) as [Gf Gs].
+  assert (K : g_feat_seen (gh s) = true ->
+              g_feat_seen (gh (note_rx e s)) = true /\ g_strong (gh (note_rx e s)) = g_strong (gh s)).
+  { intro X. rewrite Gf, Gs, X. cbn. rewrite andb_false_r, orb_false_r. auto. }
+  constructor.
+  - intro A. contradiction.
+  - exact (li_XF s L).
+  - intro A. destruct (li_XT s L A) as [X1 [X2 [X3 [X4 [X5 [X6 X7]]]]]]. destruct (K X6) as [K1 K2].
+    rewrite K1, K2. split; [exact X1|]. split; [exact X2|]. split; [exact X3|]. split; [exact X4|]. split; [exact X5|]. split; [reflexivity|exact X7].
+  - intros k A B. destruct (li_XS s L k A B) as [X1 [X2 [X3 [X4 [X5 X6]]]]]. destruct (K X5) as [K1 K2].
+    rewrite K1, K2. split; [exact X1|]. split; [exact X2|]. split; [exact X3|]. split; [exact X4|]. split; [reflexivity|exact X6].
+  - exact (li_XP s L).
+  - exact (li_TMF s L).
+  - intros A B C. change (ps (note_rx e s)) with (ps s) in C. congruence.
+  - intros A B. destruct (li_POT s L A B) as [X1 [X2 X3]].
+    assert (Y : ps s <> PDepth0) by (rewrite P; discriminate). destruct (K (X3 Y)) as [K1 K2].
+    rewrite K2. split; [exact X1|]. split; [exact X2|intros _; exact K1].
+  - exact (li_POP s L).
+  - exact (li_O s L).
+  - exact (li_R s L).
+  - exact (li_RP s L).
+  - exact (li_RAW s L).
+  - exact (li_STUB s L).
+  - exact (li_COMP s L).
+  - exact (li_Q s L).
+  - exact (li_M s L).
+  - exact (li_D s L).
+  - exact (li_L s L).
+  - intros x A B. destruct (li_PL s L x A B) as [X1 [X2 X3]]. destruct (K X2) as [K1 K2].
+    rewrite K1, K2. split; [exact X1|]. split; [reflexivity|exact X3].
+Qed.
+
+Lemma ginv_conv s s' : tls_support s' = tls_support s -> sw s' = sw s -> GInv s -> GInv s'.
+Proof. intros A B [G1 G2]. constructor; [congruence|]. intros w H. apply G2. rewrite <- B. exact H. Qed.
+
+Lemma linv_same s s' :
+  LInv s -> (forall P : state -> Prop, P s -> P s') -> LInv s'.
+Proof. intros L H. apply H. exact L. Qed.
+
+Lemma hinv_set_crashed b s : HInv s -> HInv (set_crashed b s).
+Proof.
+  intros [[G1 G2] Lv]. split; [constructor; [exact G1|exact G2]|]. intro L'. specialize (Lv L'). constructor.
+  - exact (li_C s Lv). - exact (li_XF s Lv). - exact (li_XT s Lv). - exact (li_XS s Lv). - exact (li_XP s Lv).
+  - exact (li_TMF s Lv). - exact (li_POA s Lv). - exact (li_POT s Lv). - exact (li_POP s Lv). - exact (li_O s Lv).
+  - exact (li_R s Lv). - exact (li_RP s Lv). - exact (li_RAW s Lv). - exact (li_STUB s Lv). - exact (li_COMP s Lv).
+  - exact (li_Q s Lv). - exact (li_M s Lv). - exact (li_D s Lv). - exact (li_L s Lv). - exact (li_PL s Lv).
+Qed.
+
+(* from the dispatch-local knowledge back to the step-level one *)
+Lemma dpre_restore e t :
+  VPost (Some e, True) t -> (is_feat e = true -> hasF t -> crashed t = true) -> DPre t.
+Proof.
+  intros [H [_ [Po [Nc [D [LD _]]]]]] FF. split; [exact H|]. split; [exact (Po eq_refl)|]. split; [exact Nc|].
+  split; [|apply (LD eq_refl)].
+  intros L' F. destruct (D L' F) as [_ D2]. split; [intros e' X; discriminate X|].
+  intros Cr Y. destruct (D2 Cr Y) as [Z|[e' [Z1 [Z2 _]]]]; [left; exact Z|]. cbn in Z1. inv Z1.
+  rewrite (FF Z2 F) in Cr. discriminate.
+Qed.
+
+Lemma vpost_id_del eo k t : VPost eo t -> VPost eo (id_del k t).
+Proof.
+  intros [H [C1 [C2 [C3 [C4 [C5 C6]]]]]]. split.
+  - eapply (hinv_del _ pnone); [exact H|apply id_del_eff|reflexivity|reflexivity|..]; cbn; try tauto.
+  - split; [intro X; discriminate X|]. split; [exact C2|]. split; [exact C3|]. split; [exact C4|]. split; [|exact C6].
+    intro X. destruct (C5 X) as [A B]. split; [|exact B].
+    intro S. destruct (A S) as [A1 [A2 A3]]. split; [exact A1|split; [exact A2|]].
+    intros i K. apply In_ik_id_del in K. auto.
+Qed.
+
+Lemma dispatch_inv now e s : DPre s -> DPre (fst (dispatch now e s)).
+Proof.
+  intros [[G Lv] [P [N [D LD]]]]. destruct (note_rx_gh e s) as [Gf Gs].
+  unfold dispatch. cbv zeta. set (s0 := note_rx e s).
+  assert (H0 : HInv s0).
+  { split; [apply (ginv_conv s); [reflexivity|reflexivity|exact G]|]. intro L'. apply linv_note_rx; auto. }
+  assert (D0 : VD (Some e, True) s0).
+  { intros L' F. destruct (D L' F) as [_ D2]. split.
+    - intros e' X Y. cbn in X. inv X. unfold s0. rewrite Gf, Y. apply orb_true_r.
+    - intros Cr Y. unfold s0 in Y. rewrite Gs in Y. apply orb_true_iff in Y as [Y|Y].
+      + destruct (D2 Cr Y) as [Z|[e' [Z _]]]; [left; exact Z|discriminate Z].
+      + right. exists e. apply andb_true_iff in Y as [Y1 Y2]. apply andb_true_iff in Y1 as [Y1 _]. auto. }
+  destruct (negb (sm_alloc s0)); cbn [fst].
+  { (* the model's crash branch *)
+    split; [apply hinv_set_crashed; exact H0|]. split; [exact P|]. split; [exact N|]. split; [|exact LD].
+    intros L' F. split; [intros e' X; discriminate X|]. intros Cr. discriminate Cr. }
+  set (sE := set_handlers (map (fun x => (fst x, true)) (handlers s0)) s0).
+  assert (Ehk : hk sE = hk s0) by (unfold sE, hk; simpl; rewrite map_map; reflexivity).
+  assert (VE : VPost (Some e, True) sE).
+  { split.
+    - eapply (hinv_del _ pnone); [exact H0|apply enable_all_eff|reflexivity|reflexivity|..]; cbn; try tauto.
+      intros _ X. rewrite map_map. cbn. exact X.
+    - split; [intro X; discriminate X|]. split; [intros _; exact P|]. split; [exact N|]. split; [|split; [|intros _; exact I]].
+      + intros L' F. unfold hasF in F. rewrite Ehk in F. exact (D0 L' F).
+      + intros _. split.
+        * intro S. destruct (LD S) as [A [B C]]. split; [exact A|split; [|exact C]]. rewrite Ehk. exact B.
+        * intro F. apply In_hk_handlers in F as [b F]. unfold sE in F |- *. cbn in *.
+          apply in_map_iff in F as [x [X1 X2]]. inv X1. apply in_map_iff. exists x. split; [reflexivity|exact X2]. }
+  clearbody sE.
+  set (r1 := match idk_of (e_id e) with Some k => _ | None => _ end).
+  assert (V1 : VPost (Some e, True) (fst r1)).
+  { unfold r1. destruct (idk_of (e_id e)) as [k|]; [|exact VE].
+    destruct (id_has k sE) eqn:Hi; [|exact VE].
+    rewrite (pair_eta (call_id_handler k now e sE)). cbn [fst].
+    apply vpost_id_del.
+    assert (J : JR (match k with IKLegacy => false | _ => true end) true true (Some e, True) (call_id_handler k now e sE)).
+    { apply call_id_J. destruct VE as [HE [_ CE]]. split; [exact HE|]. split; [|exact CE].
+      intro X. apply id_has_In in Hi. destruct k; [right; left; exact Hi|right; right; exact Hi|discriminate X]. }
+    unfold JR in J. destruct J as [HJ [_ CJ]]. split; [exact HJ|]. split; [intro X; discriminate X|exact CJ]. }
+  clearbody r1. destruct r1 as [s1 o1]. cbn [fst] in V1.
+  set (snapshot := map fst (filter (fun x => snd x) (handlers s1))).
+  assert (FI : FoldI e snapshot s1).
+  { split; [exact V1|]. intros _ F. right. destruct V1 as [_ [_ [_ [_ [_ [LD1 _]]]]]].
+    destruct (LD1 eq_refl) as [_ En]. specialize (En F). unfold snapshot.
+    apply in_map_iff. exists (HFeatures, true). split; [reflexivity|]. apply filter_In. split; [exact En|reflexivity]. }
+  pose proof (fold_visit_foldI now e snapshot (s1, o1) FI) as [V3 FF].
+  destruct (fold_left (visit now e) snapshot (s1, o1)) as [s3 o3]. cbn [fst] in *.
+  destruct (crashed s3) eqn:Cr3; cbn [fst].
+  { apply (dpre_restore e); [exact V3|auto]. }
+  assert (NF3 : is_feat e = true -> hasF s3 -> False).
+  { intros A B. destruct (FF A B) as [X|[]]. congruence. }
+  destruct (sm_enabled s3); cbn [fst]; [|apply (dpre_restore e); [exact V3|intros A B; destruct (NF3 A B)]].
+  assert (V4 : VPost (Some e, hasF s3) (sm_handle e s3)).
+  { apply sm_handle_J. apply (vpost_hf _ True); [exact V3|auto]. }
+  apply (dpre_restore e); [apply (vpost_hf _ (hasF s3)); [exact V4|auto]|].
+  intros A B. destruct V4 as [_ [_ [_ [_ [_ [_ X]]]]]]. destruct (NF3 A (X B)).
+Qed.
+
+(* ------------------------------------------------------------------ the parser state changes *)
+Lemma linv_set_ps v s : v <> PDepth0 -> LInv s -> LInv (set_ps v s).
+Proof.
+  intros V L. constructor.
+  - exact (li_C s L). - exact (li_XF s L). - exact (li_XT s L). - exact (li_XS s L). - exact (li_XP s L).
+  - exact (li_TMF s L).
+  - intros _ _ X. cbn in X. congruence.
+  - intros A [B|B]; [|cbn in B; congruence]. change (oh s = OpenTls) in A. change (reset_parser s = true) in B.
+    destruct (li_POT s L A (or_introl B)) as [X1 [X2 X3]]. split; [exact X1|]. split; [exact X2|]. intros _. apply X3.
+    destruct (li_O s L A) as [_ C]. apply (li_RP s L C); [|exact B].
+    destruct (is_raw s) eqn:R; [|reflexivity]. destruct (li_RAW s L R) as [[Y|Y] _]; congruence.
+  - exact (li_POP s L). - exact (li_O s L). - exact (li_R s L).
+  - intros _ _ _. exact V.
+  - exact (li_RAW s L). - exact (li_STUB s L). - exact (li_COMP s L).
+  - exact (li_Q s L). - exact (li_M s L). - exact (li_D s L). - exact (li_L s L).
+  - intros x A B. destruct (li_PL s L x A B) as [X1 [X2 _]]. split; [exact X1|]. split; [exact X2|exact V].
+Qed.
+
+(* what is known when a stream is about to be opened *)
+Lemma p0_facts s : LInv s -> st s = Connected -> ps s = PDepth0 ->
+  ~ hasT s /\ ~ hasS s /\ (forall x, In x (sendq s) -> fst (fst x) <> WAuth MPlain) /\
+  (is_raw s = false -> reset_parser s = false).
+Proof.
+  intros L C P.
+  assert (PL : forall x, In x (sendq s) -> fst (fst x) <> WAuth MPlain).
+  { intros x A B. destruct (li_PL s L x A B) as [_ [_ X]]. contradiction. }
+  assert (RP : is_raw s = false -> reset_parser s = false).
+  { intro R. destruct (reset_parser s) eqn:X; [|reflexivity]. destruct (li_RP s L C R X P). }
+  assert (TS : ~ hasT s /\ ~ hasS s).
+  { destruct (oh s) eqn:O.
+    - destruct (li_POA s L C O P) as [_ [_ [X _]]]. split; [intro Y; specialize (X _ Y); discriminate|].
+      intros [k [Y Z]]. specialize (X _ Y). subst. discriminate.
+    - destruct (li_POT s L O (or_intror P)) as [[X _] _]. split; [intro Y; specialize (X _ Y); discriminate|].
+      intros [k [Y Z]]. specialize (X _ Y). destruct k; discriminate.
+    - destruct (li_POP s L (or_introl O)) as [_ [X [Y _]]]. tauto.
+    - destruct (li_POP s L (or_intror O)) as [_ [X [Y _]]]. tauto.
+    - destruct (li_COMP s L O) as [X _]. split; [intro Y; specialize (X _ Y); discriminate|].
+      intros [k [Y Z]]. specialize (X _ Y). destruct k; discriminate.
+    - pose proof (li_STUB s L (or_intror O)) as R. destruct (li_RAW s L R) as [_ [X _]].
+      split; [intro Y; specialize (X _ Y); discriminate|]. intros [k [Y Z]]. specialize (X _ Y). subst. discriminate.
+    - pose proof (li_STUB s L (or_introl O)) as R. destruct (li_RAW s L R) as [_ [X _]].
+      split; [intro Y; specialize (X _ Y); discriminate|]. intros [k [Y Z]]. specialize (X _ Y). subst. discriminate. }
+  tauto.
+Qed.
+
+(* _handle_stream_start begins: the parser is inside the stream, no features seen on it yet *)
+Definition start0 (b : bool) (v : pstate) (s : state) : state :=
+  set_stream_id false (upg (fun g => set_g_raw_open (b || g_raw_open g) (set_g_feat_seen false g)) (set_ps v s)).
+Definition start_st (v : pstate) (has_id : bool) (s : state) : state := set_stream_id has_id (start0 true v s).
+Ltac linv_start_tac s L C P V :=
+  let NT := fresh "NT" in let NS := fresh "NS" in let NPL := fresh "NPL" in let RPf := fresh "RPf" in
+  destruct (p0_facts s L C P) as [NT [NS [NPL RPf]]];
+  constructor;
+  [ let X := fresh in intro X; change (st s = Connecting) in X; congruence
+  | exact (li_XF s L)
+  | let X := fresh in intro X; contradiction
+  | let k := fresh in let A := fresh in let B := fresh in intros k A B; exfalso; apply NS; exists k; auto
+  | exact (li_XP s L)
+  | exact (li_TMF s L)
+  | let X := fresh in intros _ _ X; cbn in X; congruence
+  | let A := fresh in let B := fresh in
+    intros A [B|B]; [|cbn in B; congruence]; exfalso; change (oh s = OpenTls) in A; change (reset_parser s = true) in B;
+    assert (R : is_raw s = false) by
+      (destruct (is_raw s) eqn:R; [|reflexivity]; destruct (li_RAW s L R) as [[Y|Y] _]; congruence);
+    rewrite (RPf R) in B; discriminate
+  | exact (li_POP s L) | exact (li_O s L) | exact (li_R s L)
+  | intros _ _ _; exact V
+  | exact (li_RAW s L) | exact (li_STUB s L) | exact (li_COMP s L)
+  | exact (li_Q s L) | exact (li_M s L) | exact (li_D s L) | exact (li_L s L)
+  | let x := fresh in let A := fresh in let B := fresh in intros x A B; destruct (NPL x A B) ].
+Lemma linv_start0 b v s : v <> PDepth0 -> LInv s -> st s = Connected -> ps s = PDepth0 -> LInv (start0 b v s).
+Proof. intros V L C P. linv_start_tac s L C P V. Qed.
+Lemma linv_start v has_id s : v <> PDepth0 -> LInv s -> st s = Connected -> ps s = PDepth0 -> LInv (start_st v has_id s).
+Proof. intros V L C P. linv_start_tac s L C P V. Qed.
+
+(* ------------------------------------------------------------------ the open handlers register the handlers of the new stream *)
+Section OpenTransfer.
+Variables s s' : state.
+Hypothesis L : LInv s.
+Hypothesis F : frame [Fh; Ft] s s'.
+Hypothesis Hps : ps s <> PDepth0.
+Hypothesis Hst : st s = Connected.
+Hypothesis Hraw : is_raw s = false.
+Hypothesis NT : ~ hasT s.
+Hypothesis NS : ~ hasS s.
+Hypothesis Hrp : oh s = OpenTls -> reset_parser s = false.
+Hypothesis Hh : forall k, In k (hk s') -> In k (hk s) \/ is_baseh k = true \/ k = HFeatures \/ is_posth k = true.
+Hypothesis OXF : hasF s' ->
+  (forall k, In k (hk s') -> is_baseh k = true \/ k = HFeatures) /\ prepost s' /\
+  (oh s' = OpenAuth \/ oh s' = OpenTls) /\ (hasTMF s' -> oh s' = OpenAuth) /\ (hasTMF s' -> sasl s' = []).
+Hypothesis OXP : forall k, In k (hk s') -> is_posth k = true ->
+  (forall k', In k' (hk s') -> is_baseh k' = true \/ is_posth k' = true) /\ ~ hasTMF s'.
+Hypothesis OTMF : hasTMF s' -> hasF s'.
+Hypothesis OPOP : (oh s' = OpenSasl \/ oh s' = OpenCompress) -> noauth s'.
+Hypothesis OCOMP : oh s' = OpenComponent ->
+  (forall k, In k (hk s') -> is_baseh k = true) /\ (forall i, In i (ik s') -> i = IKLegacy) /\ ~ hasTMF s'.
+
+Lemma linv_open : LInv s'.
+Proof.
+  assert (T' : ~ hasT s').
+  { intro X. destruct (Hh _ X) as [Y|[Y|[Y|Y]]]; try discriminate. contradiction. }
+  assert (S' : forall k, In k (hk s') -> is_saslh k = true -> False).
+  { intros k X Y. destruct (Hh _ X) as [Z|[Z|[Z|Z]]]; [apply NS; exists k; auto|destruct k; discriminate|subst; discriminate|destruct k; discriminate]. }
+  constructor.
+  - intro X. rewrite (F Fst eq_refl) in X. congruence.
+  - exact OXF.
+  - intro X. contradiction.
+  - intros k X Y. destruct (S' k X Y).
+  - exact OXP.
+  - exact OTMF.
+  - intros _ _ X. rewrite (F Fps eq_refl) in X. contradiction.
+  - intros A [B|B]; exfalso.
+    + rewrite (F Foh eq_refl) in A. rewrite (F Frp eq_refl), (Hrp A) in B. discriminate.
+    + rewrite (F Fps eq_refl) in B. contradiction.
+  - exact OPOP.
+  - intro A. rewrite (F Foh eq_refl) in A. rewrite (F Fsec eq_refl), (F Fst eq_refl). apply (li_O s L A).
+  - intros A B. rewrite (F Fst eq_refl) in A. rewrite (F Foh eq_refl) in B. rewrite (F Frp eq_refl). apply (li_R s L A B).
+  - intros _ _ _. rewrite (F Fps eq_refl). exact Hps.
+  - intro A. rewrite (F Fraw eq_refl) in A. congruence.
+  - intro A. rewrite (F Foh eq_refl) in A. rewrite (F Fraw eq_refl). apply (li_STUB s L A).
+  - exact OCOMP.
+  - rewrite (F Fsq eq_refl). exact (li_Q s L).
+  - intros A B. rewrite (F Fmand eq_refl) in A. unfold is_secured. rewrite (F Fsec eq_refl), (F Ftlsf eq_refl), (F Ftlsp eq_refl).
+    apply (li_M s L A). destruct B as [[k [B1 B2]]|B]; [destruct (S' k B1 B2)|right; rewrite <- (F Fsq eq_refl); exact B].
+  - rewrite (F Fsq eq_refl), (F Fdis eq_refl). exact (li_D s L).
+  - rewrite (F Fsq eq_refl), (F Flauth eq_refl), (F Ftyp eq_refl). exact (li_L s L).
+  - rewrite (F Fsq eq_refl), (F Fgs eq_refl), (F Fgf eq_refl), (F Fps eq_refl). exact (li_PL s L).
+Qed.
+End OpenTransfer.
+
+Lemma ginv_start v h s : GInv s -> GInv (start_st v h s).
+Proof. intros [G1 G2]. constructor; [exact G1|exact G2]. Qed.
+
+Lemma open_handler_inv now v h s :
+  v <> PDepth0 -> GInv s -> LInv s -> st s = Connected -> ps s = PDepth0 -> VD (None, True) s ->
+  JT false false false (None, True) (fst (open_handler now (start_st v h s))) /\
+  st (fst (open_handler now (start_st v h s))) = Connected.
+Proof.
+  intros V G L C P D.
+  pose proof (linv_start v h s V L C P) as Lt. pose proof (ginv_start v h s G) as Gt.
+  destruct (p0_facts s L C P) as [NT [NS [_ RPf]]].
+  set (t := start_st v h s) in *.
+  assert (Ct : st t = Connected) by exact C. assert (Pt : ps t <> PDepth0) by exact V.
+  assert (Lvt : live t) by (unfold live; rewrite Ct; discriminate).
+  assert (NTt : ~ hasT t) by exact NT. assert (NSt : ~ hasS t) by exact NS.
+  assert (Dt : VD (None, True) t).
+  { intros _ Ft. destruct (D ltac:(unfold live; rewrite C; discriminate) Ft) as [_ D2].
+    split; [intros e X; discriminate X|]. exact D2. }
+  assert (Base : JT false false false (None, True) t).
+  { split; [split; [exact Gt|intros _; exact Lt]|]. split; [intro X; discriminate X|]. split; [intro X; discriminate X|].
+    split; [rewrite Ct; discriminate|]. split; [exact Dt|]. split; [intro X; discriminate X|intros _; exact I]. }
+  assert (mk : forall res, LInv res -> GInv res -> st res = Connected -> True ->
+               (hasF res -> crashed res = false -> g_strong (gh res) = true -> strong_in res) ->
+               JT false false false (None, True) res /\ st res = Connected).
+  { intros res Lr Gr Cr Pr Dr. split; [|exact Cr]. split; [split; [exact Gr|intros _; exact Lr]|]. split; [intro X; discriminate X|].
+    split; [intro X; discriminate X|]. split; [rewrite Cr; discriminate|]. split; [|split; [intro X; discriminate X|intros _; exact I]].
+    intros _ Fr. split; [intros e X; discriminate X|]. intros A B. left. exact (Dr Fr A B). }
+  assert (NRaw : oh t <> OpenStub -> oh t <> OpenRaw -> is_raw t = false).
+  { intros A B. destruct (is_raw t) eqn:R; [|reflexivity]. destruct (li_RAW t Lt R) as [[X|X] _]; contradiction. }
+  unfold open_handler. destruct (oh t) eqn:O; cbn [fst ret].
+  - (* OpenAuth *)
+    destruct (li_POA s L C O P) as [F1 [F2 [F3 [F4 [F5 F6]]]]].
+    set (res := timed_add TMissingFeatures now (h_add HFeatures (h_add HError (timed_reset_all now t)))).
+    assert (E : eff [Fh; Ft] (mkP (fun _ => False) (fun k => k = HError \/ k = HFeatures) (fun _ => False)
+                               (fun k => k = TMissingFeatures)) t res).
+    { unfold res.
+      assert (E1 : eff [Fh] (mkP (fun _ => False) (fun k => k = HError \/ k = HFeatures) (fun _ => False)
+                               (fun k => k = TMissingFeatures)) t (h_add HError (timed_reset_all now t))).
+      { eseq ltac:(apply (timed_reset_all_eff pnone)) ltac:(apply h_add_eff); psolve. }
+      assert (E2 : eff [Fh] (mkP (fun _ => False) (fun k => k = HError \/ k = HFeatures) (fun _ => False)
+                               (fun k => k = TMissingFeatures)) t (h_add HFeatures (h_add HError (timed_reset_all now t)))).
+      { eseq ltac:(exact E1) ltac:(apply h_add_eff); psolve. }
+      eseq ltac:(exact E2) ltac:(apply timed_add_eff); psolve. }
+    assert (Fr : frame [Fh; Ft] t res) by (apply (ef_L _ _ _ _ E); unfold live; rewrite (ef_nd _ _ _ _ E eq_refl), Ct; discriminate).
+    assert (HF : hasF res).
+    { unfold res, hasF. eapply keep_hk; [apply timed_add_eff|reflexivity|]. apply In_hk_h_add. right. reflexivity. }
+    assert (HK : forall k, In k (hk res) -> is_baseh k = true \/ k = HFeatures).
+    { intros k X. destruct (ef_h _ _ _ _ E _ X) as [Y|[Y|Y]]; [left; rewrite (F3 k Y); reflexivity|left; subst; reflexivity|right; exact Y]. }
+    apply mk.
+    + apply (linv_open t res Lt Fr Pt Ct); try assumption.
+      * apply NRaw; congruence.
+      * intro X. congruence.
+      * intros k X. destruct (HK k X) as [Y|Y]; auto.
+      * intros _. split; [exact HK|]. split; [split; [rewrite (Fr Fid eq_refl); exact F4|rewrite (Fr Fsme eq_refl); exact F2]|].
+        rewrite (Fr Foh eq_refl), (Fr Fsasl eq_refl). split; [left; exact O|]. split; [intros _; exact O|intros _; exact F1].
+      * intros k X Y. destruct (HK k X) as [Z|Z]; [destruct k; discriminate|subst; discriminate].
+      * intros _. exact HF.
+      * intros [X|X]; rewrite (Fr Foh eq_refl) in X; congruence.
+      * intro X. rewrite (Fr Foh eq_refl) in X. congruence.
+    + apply (ginv_conv t); [exact (ef_U _ _ _ _ E Ftlss eq_refl)|exact (ef_U _ _ _ _ E Fsmq eq_refl)|exact Gt].
+    + rewrite (Fr Fst eq_refl). exact Ct.
+    + exact I.
+    + intros _ _ X. rewrite (Fr Fgs eq_refl) in X. change (g_strong (gh t)) with (g_strong (gh s)) in X. congruence.
+  - (* OpenTls *)
+    destruct (li_POT s L O (or_intror P)) as [[Q1 [Q2 [Q3 Q4]]] [PL3 _]].
+    set (res := timed_add TMissingFeaturesSasl now (h_add HFeatures t)).
+    assert (E : eff [Fh; Ft] (mkP (fun _ => False) (fun k => k = HFeatures) (fun _ => False)
+                               (fun k => k = TMissingFeaturesSasl)) t res).
+    { unfold res. eseq ltac:(apply h_add_eff) ltac:(apply timed_add_eff); psolve. }
+    assert (Fr : frame [Fh; Ft] t res) by (apply (ef_L _ _ _ _ E); unfold live; rewrite (ef_nd _ _ _ _ E eq_refl), Ct; discriminate).
+    assert (HF : hasF res).
+    { unfold res, hasF. eapply keep_hk; [apply timed_add_eff|reflexivity|]. apply In_hk_h_add. right. reflexivity. }
+    assert (HK : forall k, In k (hk res) -> is_baseh k = true \/ k = HFeatures).
+    { intros k X. destruct (ef_h _ _ _ _ E _ X) as [Y|Y]; [left; exact (Q1 k Y)|right; exact Y]. }
+    assert (NTM : ~ hasTMF res).
+    { intro X. destruct (ef_t _ _ _ _ E _ X) as [Y|Y]; [exact (Q2 Y)|discriminate Y]. }
+    apply mk.
+    + apply (linv_open t res Lt Fr Pt Ct); try assumption.
+      * apply NRaw; congruence.
+      * intros _. apply RPf. change (is_raw s) with (is_raw t). apply NRaw; congruence.
+      * intros k X. destruct (HK k X) as [Y|Y]; auto.
+      * intros _. split; [exact HK|]. split; [split; [rewrite (Fr Fid eq_refl); exact Q3|rewrite (Fr Fsme eq_refl); exact Q4]|].
+        rewrite (Fr Foh eq_refl). split; [right; exact O|]. split; intro X; contradiction.
+      * intros k X Y. destruct (HK k X) as [Z|Z]; [destruct k; discriminate|subst; discriminate].
+      * intro X. contradiction.
+      * intros [X|X]; rewrite (Fr Foh eq_refl) in X; congruence.
+      * intro X. rewrite (Fr Foh eq_refl) in X. congruence.
+    + apply (ginv_conv t); [exact (ef_U _ _ _ _ E Ftlss eq_refl)|exact (ef_U _ _ _ _ E Fsmq eq_refl)|exact Gt].
+    + rewrite (Fr Fst eq_refl). exact Ct.
+    + exact I.
+    + intros _ _ X. rewrite (Fr Fgs eq_refl) in X. unfold strong_in. rewrite (Fr Fsasl eq_refl). apply PL3. exact X.
+  - (* post-authentication stream *)
+    pose proof (li_POP s L ltac:(auto)) as [N1 [N2 [N3 N4]]].
+    set (res := timed_add TMissingFeaturesSasl now (h_add HFeaturesSasl t)).
+    assert (E : eff [Fh; Ft] (mkP (fun _ => False) (fun k => k = HFeaturesSasl) (fun _ => False)
+                               (fun k => k = TMissingFeaturesSasl)) t res).
+    { unfold res. eseq ltac:(apply h_add_eff) ltac:(apply timed_add_eff); psolve. }
+    assert (Fr : frame [Fh; Ft] t res) by (apply (ef_L _ _ _ _ E); unfold live; rewrite (ef_nd _ _ _ _ E eq_refl), Ct; discriminate).
+    assert (NF : ~ hasF res).
+    { intro X. destruct (ef_h _ _ _ _ E _ X) as [Y|Y]; [exact (N1 Y)|discriminate Y]. }
+    assert (NTM : ~ hasTMF res).
+    { intro X. destruct (ef_t _ _ _ _ E _ X) as [Y|Y]; [exact (N4 Y)|discriminate Y]. }
+    assert (HK : forall k, In k (hk res) -> is_baseh k = true \/ is_posth k = true).
+    { intros k X. destruct (ef_h _ _ _ _ E _ X) as [Y|Y]; [|right; cbn in Y; subst; reflexivity].
+      destruct (class_cases k) as [Z|[Z|[Z|[Z|Z]]]]; auto; exfalso; subst; try tauto. apply N3. exists k. auto. }
+    apply mk.
+    + apply (linv_open t res Lt Fr Pt Ct); try assumption.
+      * apply NRaw; congruence.
+      * intro X. congruence.
+      * intros k X. destruct (HK k X) as [Y|Y]; auto.
+      * intro X. contradiction.
+      * intros k X Y. split; [exact HK|exact NTM].
+      * intro X. contradiction.
+      * intros _. split; [exact NF|]. split; [|split; [|exact NTM]].
+        { intro X. destruct (HK _ X); discriminate. }
+        { intros [k [X Y]]. destruct (HK _ X); destruct k; discriminate. }
+      * intro X. rewrite (Fr Foh eq_refl) in X. congruence.
+    + apply (ginv_conv t); [exact (ef_U _ _ _ _ E Ftlss eq_refl)|exact (ef_U _ _ _ _ E Fsmq eq_refl)|exact Gt].
+    + rewrite (Fr Fst eq_refl). exact Ct.
+    + exact I.
+    + intros X. contradiction.
+  - (* post-authentication stream *)
+    pose proof (li_POP s L ltac:(auto)) as [N1 [N2 [N3 N4]]].
+    set (res := timed_add TMissingFeaturesSasl now (h_add HFeaturesCompress t)).
+    assert (E : eff [Fh; Ft] (mkP (fun _ => False) (fun k => k = HFeaturesCompress) (fun _ => False)
+                               (fun k => k = TMissingFeaturesSasl)) t res).
+    { unfold res. eseq ltac:(apply h_add_eff) ltac:(apply timed_add_eff); psolve. }
+    assert (Fr : frame [Fh; Ft] t res) by (apply (ef_L _ _ _ _ E); unfold live; rewrite (ef_nd _ _ _ _ E eq_refl), Ct; discriminate).
+    assert (NF : ~ hasF res).
+    { intro X. destruct (ef_h _ _ _ _ E _ X) as [Y|Y]; [exact (N1 Y)|discriminate Y]. }
+    assert (NTM : ~ hasTMF res).
+    { intro X. destruct (ef_t _ _ _ _ E _ X) as [Y|Y]; [exact (N4 Y)|discriminate Y]. }
+    assert (HK : forall k, In k (hk res) -> is_baseh k = true \/ is_posth k = true).
+    { intros k X. destruct (ef_h _ _ _ _ E _ X) as [Y|Y]; [|right; cbn in Y; subst; reflexivity].
+      destruct (class_cases k) as [Z|[Z|[Z|[Z|Z]]]]; auto; exfalso; subst; try tauto. apply N3. exists k. auto. }
+    apply mk.
+    + apply (linv_open t res Lt Fr Pt Ct); try assumption.
+      * apply NRaw; congruence.
+      * intro X. congruence.
+      * intros k X. destruct (HK k X) as [Y|Y]; auto.
+      * intro X. contradiction.
+      * intros k X Y. split; [exact HK|exact NTM].
+      * intro X. contradiction.
+      * intros _. split; [exact NF|]. split; [|split; [|exact NTM]].
+        { intro X. destruct (HK _ X); discriminate. }
+        { intros [k [X Y]]. destruct (HK _ X); destruct k; discriminate. }
+      * intro X. rewrite (Fr Foh eq_refl) in X. congruence.
+    + apply (ginv_conv t); [exact (ef_U _ _ _ _ E Ftlss eq_refl)|exact (ef_U _ _ _ _ E Fsmq eq_refl)|exact Gt].
+    + rewrite (Fr Fst eq_refl). exact Ct.
+    + exact I.
+    + intros X. contradiction.
+  - (* component *)
+    destruct (li_COMP s L O) as [B1 [B2 B3]].
+    set (res := timed_add TMissingHandshake now (h_add HComponentHs (h_add HError (timed_reset_all now t)))).
+    assert (E : eff [Fh; Ft] (mkP (fun _ => False) (fun k => k = HError \/ k = HComponentHs) (fun _ => False)
+                               (fun k => k = TMissingHandshake)) t res).
+    { unfold res.
+      assert (E1 : eff [Fh] (mkP (fun _ => False) (fun k => k = HError \/ k = HComponentHs) (fun _ => False)
+                               (fun k => k = TMissingHandshake)) t (h_add HError (timed_reset_all now t))).
+      { eseq ltac:(apply (timed_reset_all_eff pnone)) ltac:(apply h_add_eff); psolve. }
+      assert (E2 : eff [Fh] (mkP (fun _ => False) (fun k => k = HError \/ k = HComponentHs) (fun _ => False)
+                               (fun k => k = TMissingHandshake)) t (h_add HComponentHs (h_add HError (timed_reset_all now t)))).
+      { eseq ltac:(exact E1) ltac:(apply h_add_eff); psolve. }
+      eseq ltac:(exact E2) ltac:(apply timed_add_eff); psolve. }
+    assert (Fr : frame [Fh; Ft] t res) by (apply (ef_L _ _ _ _ E); unfold live; rewrite (ef_nd _ _ _ _ E eq_refl), Ct; discriminate).
+    assert (HK : forall k, In k (hk res) -> is_baseh k = true).
+    { intros k X. destruct (ef_h _ _ _ _ E _ X) as [Y|[Y|Y]]; [exact (B1 k Y)|subst; reflexivity|subst; reflexivity]. }
+    assert (NTM : ~ hasTMF res).
+    { intro X. destruct (ef_t _ _ _ _ E _ X) as [Y|Y]; [exact (B3 Y)|discriminate Y]. }
+    assert (JR0 : JT false false false (None, True) res /\ st res = Connected).
+    { apply mk.
+      + apply (linv_open t res Lt Fr Pt Ct); try assumption.
+        * apply NRaw; congruence.
+        * intro X. congruence.
+        * intros k X. right. left. exact (HK k X).
+        * intro X. specialize (HK _ X). discriminate.
+        * intros k X Y. specialize (HK _ X). destruct k; discriminate.
+        * intro X. contradiction.
+        * intros [X|X]; rewrite (Fr Foh eq_refl) in X; congruence.
+        * intros _. split; [exact HK|]. split; [rewrite (Fr Fid eq_refl); exact B2|exact NTM].
+      + apply (ginv_conv t); [exact (ef_U _ _ _ _ E Ftlss eq_refl)|exact (ef_U _ _ _ _ E Fsmq eq_refl)|exact Gt].
+      + rewrite (Fr Fst eq_refl). exact Ct.
+      + exact I.
+      + intros X. specialize (HK _ X). discriminate. }
+    destruct JR0 as [JR0 JC]. fold res. destruct (stream_id res); cbn [fst ret]; (split; [repeat peelJ|]).
+    + rewrite (ef_nd _ _ _ _ (send_gated_eff WHandshake false true res) eq_refl). exact JC.
+    + rewrite (ef_nd _ _ _ _ (xmpp_disconnect_eff now res) eq_refl). exact JC.
+  - (* raw *) split; [repeat peelJ|].
+    rewrite (ef_nd _ _ _ _ (stream_negotiation_success_eff pnone (timed_reset_all now t)) eq_refl).
+    rewrite (ef_nd _ _ _ _ (timed_reset_all_eff pnone now t) eq_refl). exact Ct.
+  - (* stub *) split; [exact Base|exact Ct].
+Qed.
+
+(* ------------------------------------------------------------------ one chunk of parsed items *)
+Definition LocC (s : state) : Prop :=
+  st s = Disconnected ->
+  sm_enabled s = false /\
+  (ps s = PClosed \/ ps s = PDead \/
+   (ps s <> PDepth0 /\ (forall k, In k (hk s) -> is_baseh k = true) /\ (forall i, In i (ik s) -> i = IKLegacy))).
+Definition CInv (s : state) : Prop := HInv s /\ st s <> Connecting /\ VD (None, True) s /\ LocC s.
+
+Lemma cinv_jt s : CInv s -> JT false false false (None, True) s.
+Proof.
+  intros [H [N [D _]]]. split; [exact H|]. split; [intro X; discriminate X|]. split; [intro X; discriminate X|].
+  split; [exact N|]. split; [exact D|]. split; [intro X; discriminate X|intros _; exact I].
+Qed.
+Lemma jt_cinv s : JT false false false (None, True) s -> LocC s -> CInv s.
+Proof. intros [H [_ [_ [N [D _]]]]] LC. split; [exact H|]. split; [exact N|]. split; [exact D|exact LC]. Qed.
+
+Lemma conn_disconnect_sme s :
+  st (fst (conn_disconnect s)) = Disconnected -> (st s = Disconnected -> sm_enabled s = false) ->
+  sm_enabled (fst (conn_disconnect s)) = false.
+Proof.
+  unfold conn_disconnect. destruct (st s) eqn:E; cbn [fst ret]; [auto| |].
+  all: destruct (negb (sm_alloc s)); cbn [fst]; [intro X; cbn in X; congruence|].
+  all: intros _ _; cbv zeta; break_if; unfold reset_sm_for_reconnect, upg; cbv zeta; break_if; reflexivity.
+Qed.
+
+Lemma stream_end_J eo s : JT false false false eo s -> JT false false false eo (fst (stream_end s)).
+Proof. intro H. change (JR false false false eo (stream_end s)). cbv beta iota delta [stream_end]. repeat symJR. Qed.
+Lemma stream_end_loc s : (st s = Disconnected -> sm_enabled s = false) ->
+  ps (fst (stream_end s)) = ps s /\ (st (fst (stream_end s)) = Disconnected -> sm_enabled (fst (stream_end s)) = false).
+Proof.
+  intro H. split.
+  - destruct (stream_end_good s) as [E _]. exact (ef_U _ _ _ _ E Fps eq_refl).
+  - unfold stream_end. destruct (negb (sm_alloc s)); cbn [fst]; [exact H|].
+    intro X. apply conn_disconnect_sme; [exact X|exact H].
+Qed.
+
+Lemma hinv_set_ps v s : v <> PDepth0 -> HInv s -> HInv (set_ps v s).
+Proof.
+  intros V [[G1 G2] Lv]. split; [constructor; [exact G1|exact G2]|]. intro L'. apply linv_set_ps; [exact V|apply Lv; exact L'].
+Qed.
+Lemma cinv_set_ps v s :
+  v <> PDepth0 -> (v = PDead \/ v = PClosed \/ (ps s <> PClosed /\ ps s <> PDead /\ ps s <> PDepth0)) ->
+  CInv s -> CInv (set_ps v s).
+Proof.
+  intros V W [H [N [D LC]]]. split; [apply hinv_set_ps; assumption|]. split; [exact N|]. split; [exact D|].
+  intro X. destruct (LC X) as [A B]. split; [exact A|].
+  destruct W as [W|[W|[W1 [W2 W3]]]]; [right; left; exact W|left; exact W|].
+  destruct B as [B|[B|[B1 [B2 B3]]]]; [contradiction|contradiction|].
+  right. right. split; [exact V|split; [exact B2|exact B3]].
+Qed.
+
+Lemma cinv_connected_p0 s : CInv s -> ps s = PDepth0 -> st s = Connected.
+Proof.
+  intros [_ [N [_ LC]]] P. destruct (st s) eqn:E; [|congruence|reflexivity].
+  destruct (LC E) as [_ [X|[X|[X _]]]]; congruence.
+Qed.
+Lemma cinv_dpre s : CInv s -> ps s = POpen -> DPre s.
+Proof.
+  intros [H [N [D LC]]] P. split; [exact H|]. split; [exact P|]. split; [exact N|]. split; [exact D|].
+  intro X. destruct (LC X) as [A [B|[B|[_ [B C]]]]]; try congruence. auto.
+Qed.
+Lemma dpre_cinv s : DPre s -> CInv s.
+Proof.
+  intros [H [P [N [D LD]]]]. split; [exact H|]. split; [exact N|]. split; [exact D|].
+  intro X. destruct (LD X) as [A [B C]]. split; [exact A|]. right. right. split; [rewrite P; discriminate|auto].
+Qed.
+
+Lemma jt_start0 b v s :
+  v <> PDepth0 -> CInv s -> st s = Connected -> ps s = PDepth0 -> JT false false false (None, True) (start0 b v s).
+Proof.
+  intros V [[G Lv] [N [D _]]] C P.
+  assert (Ls : live s) by (unfold live; rewrite C; discriminate).
+  split; [split; [destruct G as [G1 G2]; constructor; [exact G1|exact G2]|intros _; apply linv_start0; auto]|].
+  split; [intro X; discriminate X|]. split; [intro X; discriminate X|]. split; [exact N|].
+  split; [|split; [intro X; discriminate X|intros _; exact I]].
+  intros _ F. destruct (D Ls F) as [_ D2]. split; [intros e X; discriminate X|exact D2].
+Qed.
+
+Lemma stream_start_true now h v s : stream_start now true h (set_ps v s) = open_handler now (start_st v h s).
+Proof. reflexivity. Qed.
+Lemma stream_start_false now h v s :
+  stream_start now false h (set_ps v s) = conn_disconnect (start0 false v s).
+Proof. reflexivity. Qed.
+
+Lemma fst3_let {A B C} (r : A * B) (c : C) : fst (fst (let '(a, b) := r in (a, b, c))) = fst r.
+Proof. destruct r; reflexivity. Qed.
+Lemma fst3_let' {A B C} (r : A * list B) (b0 : list B) (c : C) : fst (fst (let '(a, b) := r in (a, b0 ++ b, c))) = fst r.
+Proof. destruct r; reflexivity. Qed.
+Lemma feed_item_inv now it s : CInv s -> CInv (fst (fst (feed_item now it s))).
+Proof.
+  intro CI. unfold feed_item.
+  destruct (ps s) eqn:Eps.
+  - (* no stream yet *)
+    pose proof (cinv_connected_p0 s CI Eps) as Cn.
+    destruct it; cbn [fst]; try (apply cinv_set_ps; [discriminate|left; reflexivity|exact CI]).
+    + rewrite stream_start_true.
+      rewrite fst3_let.
+      destruct CI as [[G Lv] [N [D LC]]].
+      destruct (open_handler_inv now POpen has_id s ltac:(discriminate) G (Lv ltac:(unfold live; rewrite Cn; discriminate)) Cn Eps D) as [J C].
+      apply jt_cinv; [exact J|]. intro X. congruence.
+    + destruct (ns_eqb (e_ns e) NsStreams); cbn [fst]; [apply cinv_set_ps; [discriminate|left; reflexivity|exact CI]|].
+      set (r := stream_start now (ename_eqb (e_name e) NmStream) false (set_ps PClosed s)).
+      assert (J : JT false false false (None, True) (fst r) /\ ps (fst r) = PClosed /\
+                  (st (fst r) = Disconnected -> sm_enabled (fst r) = false)).
+      { unfold r. destruct (ename_eqb (e_name e) NmStream).
+        - rewrite stream_start_true.
+          destruct CI as [[G Lv] [N [D LC]]].
+          destruct (open_handler_inv now PClosed false s ltac:(discriminate) G (Lv ltac:(unfold live; rewrite Cn; discriminate)) Cn Eps D) as [J C].
+          split; [exact J|]. split; [|intro X; congruence].
+          destruct (open_handler_good now (start_st PClosed false s)) as [E _]. rewrite (ef_U _ _ _ _ E Fps eq_refl). reflexivity.
+        - rewrite stream_start_false.
+          pose proof (jt_start0 false PClosed s ltac:(discriminate) CI Cn Eps) as J0.
+          split; [repeat peelJ|]. split.
+          + destruct (conn_disconnect_good (start0 false PClosed s)) as [E _]. rewrite (ef_U _ _ _ _ E Fps eq_refl). reflexivity.
+          + intro X. apply conn_disconnect_sme; [exact X|]. intro Y. change (st s = Disconnected) in Y. congruence. }
+      clearbody r. destruct r as [s1 o1]. cbn [fst] in J. destruct J as [J [P1 S1]].
+      destruct (crashed s1); cbn [fst].
+      * apply jt_cinv; [exact J|]. intro X. split; [exact (S1 X)|left; exact P1].
+      * destruct (stream_end_loc s1 S1) as [P2 S2]. pose proof (stream_end_J _ s1 J) as J2.
+        destruct (stream_end s1) as [s2 o2]. cbn [fst] in *.
+        apply jt_cinv; [exact J2|]. intro X. split; [exact (S2 X)|left; congruence].
+  - (* inside the stream *)
+    destruct it; cbn [fst].
+    + apply cinv_set_ps; [discriminate|right; right; rewrite Eps; repeat split; discriminate|exact CI].
+    + rewrite fst3_let. apply dpre_cinv, dispatch_inv, cinv_dpre; assumption.
+    + rewrite fst3_let.
+      assert (C1 : CInv (set_ps PClosed s)) by (apply cinv_set_ps; [discriminate|right; left; reflexivity|exact CI]).
+      assert (S1 : st (set_ps PClosed s) = Disconnected -> sm_enabled (set_ps PClosed s) = false).
+      { intro X. destruct C1 as [_ [_ [_ LC]]]. destruct (LC X) as [A _]. exact A. }
+      destruct (stream_end_loc _ S1) as [P2 S2].
+      apply jt_cinv; [apply stream_end_J, cinv_jt; exact C1|]. intro X. split; [exact (S2 X)|left; rewrite P2; reflexivity].
+    + apply cinv_set_ps; [discriminate|left; reflexivity|exact CI].
+  - (* a nested stream element is swallowed *)
+    destruct it; cbn [fst]; try (apply cinv_set_ps; [discriminate|first [left; reflexivity|right; right; rewrite Eps; repeat split; discriminate]|exact CI]).
+    destruct n as [|[|m]]; cbn [fst]; try (apply cinv_set_ps; [discriminate|right; right; rewrite Eps; repeat split; discriminate|exact CI]).
+    rewrite fst3_let.
+    apply dpre_cinv, dispatch_inv, cinv_dpre; [|reflexivity].
+    apply cinv_set_ps; [discriminate|right; right; rewrite Eps; repeat split; discriminate|exact CI].
+  - destruct it; cbn [fst]; apply cinv_set_ps; try discriminate; try exact CI; left; reflexivity.
+  - destruct it; cbn [fst]; exact CI.
+Qed.
+
+Lemma feed_items_inv now its : forall s, CInv s -> CInv (fst (fst (feed_items now its s))).
+Proof.
+  induction its as [|it r IH]; intros s CI; simpl; [exact CI|].
+  destruct (crashed s); [exact CI|].
+  pose proof (feed_item_inv now it s CI) as C1. destruct (feed_item now it s) as [[s1 o1] bad]. cbn [fst] in C1.
+  destruct bad; [exact C1|].
+  pose proof (IH s1 C1) as C2. destruct (feed_items now r s1) as [[s2 o2] bad2]. exact C2.
+Qed.
+
+(* ------------------------------------------------------------------ timed handlers *)
+Definition GG (s : state) : Prop := st s = Disconnected -> sm_enabled s = false.
+Lemma gg_of_eff c p s s' : eff c p s s' -> fmem Fsme c = false -> fmem Fdisc c = false -> GG s -> GG s'.
+Proof.
+  intros E A B G X. rewrite (ef_nd _ _ _ _ E B) in X. specialize (G X).
+  destruct (ef_sme _ _ _ _ E A) as [Y|Y]; congruence.
+Qed.
+Lemma gg_conn_disconnect s : GG s -> GG (fst (conn_disconnect s)).
+Proof. intros G X. apply conn_disconnect_sme; [exact X|exact G]. Qed.
+
+
+Lemma classic_live s : live s \/ ~ live s.
+Proof. unfold live. destruct (st s); [right; tauto|left; discriminate|left; discriminate]. Qed.
+
+Lemma jt_dead e c p s s' :
+  ~ live s -> GInv s -> eff c p s s' -> tls_support s' = false -> JT false false false (e, True) s'.
+Proof.
+  intros NL G E T.
+  assert (D : st s' = Disconnected).
+  { destruct (ef_st _ _ _ _ E) as [X|X]; [|exact X]. rewrite X. destruct (st s) eqn:Y; [reflexivity| |]; exfalso; apply NL; unfold live; congruence. }
+  assert (NL' : ~ live s') by (unfold live; rewrite D; tauto).
+  split; [split; [constructor; [exact T|intros w H; apply (gi_S s G), (ef_smq _ _ _ _ E), H]|intro X; contradiction]|].
+  split; [intro X; discriminate X|]. split; [intro X; discriminate X|]. split; [rewrite D; discriminate|].
+  split; [intros X; contradiction|]. split; [intro X; discriminate X|intros _; exact I].
+Qed.
+
+Lemma jt_auth_legacy e now s :
+  JT false false false (e, True) s ->
+  (live s -> f_legacy_auth s = true /\ typ s = TClient /\ (f_tls_mandatory s = true -> is_secured s = true) /\
+             sm_enabled s = false) ->
+  JT false false false (e, True) (auth_legacy now s).
+Proof.
+  intros [[G Lv] C] J.
+  assert (T : tls_support (auth_legacy now s) = false).
+  { pose proof (ef_U _ _ _ _ (auth_legacy_eff now s) Ftlss eq_refl) as X. unfold eq_on in X. rewrite X. apply (gi_T s G). }
+  destruct (classic_live s) as [Ls|Ls]; [|eapply jt_dead; [exact Ls|exact G|apply auth_legacy_eff|exact T]].
+  destruct (J Ls) as [J1 [J2 [J3 J4]]].
+  split.
+  - eapply (hinv_mono_gen (f_legacy_auth s = true /\ typ s = TClient /\ (f_tls_mandatory s = true -> is_secured s = true)) _ _ s (auth_legacy now s));
+      [intro X; exact X|split; [exact G|exact Lv]|apply auth_legacy_eff|reflexivity|..]; cbn.
+    + intros x [X|X]; [right; rewrite X, J4; auto|left; exact X].
+    + intros k [X|X]; subst; discriminate.
+    + tauto.
+    + intros i X. left. exact X.
+    + intro X. discriminate X.
+    + intros _ X. eapply keep_hk; [apply auth_legacy_eff|reflexivity|exact X].
+  - eapply ctx_step; [apply auth_legacy_eff|reflexivity|reflexivity|reflexivity|..|exact C]; cbn; try tauto.
+    + intros i X. left. exact X.
+    + intro X. discriminate X.
+    + intro X. discriminate X.
 Qed.
